@@ -2,6 +2,7 @@
 Helper lemmas for C12 (M-GlyphOrder).
 -/
 import DefconModel.Spec.GlyphOrder
+import Mathlib.Data.List.Perm.Subperm
 
 namespace DefconModel
 namespace GlyphOrder
@@ -438,6 +439,94 @@ theorem libNormal_updateGlyphOrder (f : Font) (a r : Option Name) (h : LibNormal
     · simp
     · rename_i hne; simpa using hne
 
+/-! ## The callbacks change the lib and nothing else -/
+
+theorem setGlyphOrder_eq (f : Font) (v : Option (List Name)) :
+    setGlyphOrder f v = { f with lib := (setGlyphOrder f v).lib } := by
+  unfold setGlyphOrder
+  split
+  · rfl
+  · split <;> rfl
+
+theorem updateGlyphOrder_eq (f : Font) (a r : Option Name) :
+    updateGlyphOrder f a r = { f with lib := (updateGlyphOrder f a r).lib } := by
+  unfold updateGlyphOrder
+  simp only
+  split
+  · rfl
+  · exact setGlyphOrder_eq _ _
+
+theorem deliver_eq (f : Font) (note : Note) : deliver f note = { f with lib := (deliver f note).lib } := by
+  cases note with
+  | added n => exact updateGlyphOrder_eq f (some n) none
+  | deleted n =>
+    simp only [deliver, glyphDeletedCb]
+    split
+    · rfl
+    · exact updateGlyphOrder_eq f none (some n)
+  | renamed o n => exact updateGlyphOrder_eq f (some n) _
+
+@[simp] theorem layers_deliver (f : Font) (note : Note) : (deliver f note).layers = f.layers := by
+  rw [deliver_eq]
+
+@[simp] theorem default_deliver (f : Font) (note : Note) : (deliver f note).default = f.default := by
+  rw [deliver_eq]
+
+@[simp] theorem ghost_deliver (f : Font) (note : Note) : (deliver f note).ghost = f.ghost := by
+  rw [deliver_eq]
+
+@[simp] theorem fontHeld_deliver (f : Font) (note : Note) : (deliver f note).fontHeld = f.fontHeld := by
+  rw [deliver_eq]
+
+/-- the font's callback for a notification = one `updateGlyphOrder` (or none), with "does any layer
+still have the name" evaluated on the font as it is when the callback runs -/
+theorem glyphOrder_deliver (f : Font) (note : Note) :
+    glyphOrder (deliver f note) = specDeliver (anyLayerHas f) (glyphOrder f) note := by
+  cases note with
+  | added n => simp [deliver, glyphAddedCb, glyphOrder_updateGlyphOrder, specDeliver, deliverArgs]
+  | deleted n =>
+    simp only [deliver, glyphDeletedCb, specDeliver, deliverArgs]
+    split
+    · simp [specUpdate]
+    · simp [glyphOrder_updateGlyphOrder]
+  | renamed o n =>
+    simp only [deliver, glyphRenamedCb, glyphOrder_updateGlyphOrder, specDeliver, deliverArgs]
+
+theorem lib_deliver (f : Font) (note : Note) :
+    (deliver f note).lib = f.lib ∨
+    (deliver f note).lib =
+      (if specDeliver (anyLayerHas f) (glyphOrder f) note = [] then none
+       else some (specDeliver (anyLayerHas f) (glyphOrder f) note)) := by
+  cases note with
+  | added n => exact lib_updateGlyphOrder f (some n) none
+  | deleted n =>
+    simp only [deliver, glyphDeletedCb, specDeliver, deliverArgs]
+    split
+    · exact Or.inl rfl
+    · exact lib_updateGlyphOrder f none (some n)
+  | renamed o n => exact lib_updateGlyphOrder f (some n) _
+
+theorem libNormal_deliver (f : Font) (note : Note) (h : LibNormal f) : LibNormal (deliver f note) := by
+  unfold LibNormal at h ⊢
+  rcases lib_deliver f note with e | e
+  · rw [e]; exact h
+  · rw [e]; split
+    · simp
+    · rename_i hne; simpa using hne
+
+/-- the names `updateGlyphOrder` is called with are names of the notification -/
+theorem deliverArgs_names (ex : Name → Bool) (note : Note) :
+    (∀ x, (deliverArgs ex note).1 = some x → x ∈ note.names) ∧
+    (∀ x, (deliverArgs ex note).2 = some x → x ∈ note.names) := by
+  cases note with
+  | added n => simp [deliverArgs, Note.names]
+  | deleted n =>
+    simp only [deliverArgs, Note.names]
+    split <;> simp
+  | renamed o n =>
+    simp only [deliverArgs, Note.names]
+    split <;> simp
+
 /-! ## Layers: who has a glyph called `n` -/
 
 theorem exists_congr {f f' : Font} (h : f'.layers = f.layers) (n : Name) : Exists f' n ↔ Exists f n := by
@@ -445,6 +534,9 @@ theorem exists_congr {f f' : Font} (h : f'.layers = f.layers) (n : Name) : Exist
 
 theorem WF.congr {f f' : Font} (h : f'.layers = f.layers) (hw : WF f) : WF f' :=
   ⟨by rw [h]; exact hw.names, by rw [h]; exact hw.observed⟩
+
+theorem anyLayerHas_congr {f f' : Font} (h : f'.layers = f.layers) : anyLayerHas f' = anyLayerHas f := by
+  funext n; unfold anyLayerHas; rw [h]
 
 theorem anyLayerHas_iff {f : Font} (hn : (AL.keys f.layers).Nodup) (n : Name) :
     anyLayerHas f n = true ↔ Exists f n := by
@@ -455,6 +547,10 @@ theorem anyLayerHas_iff {f : Font} (hn : (AL.keys f.layers).Nodup) (n : Name) :
     exact ⟨L, l, AL.get?_of_mem_nodup hn hmem, by simpa [layerHas] using hh⟩
   · rintro ⟨L, l, hget, hh⟩
     exact ⟨(L, l), AL.mem_of_get? hget, by simpa [layerHas] using hh⟩
+
+theorem anyLayerHas_false_iff {f : Font} (hn : (AL.keys f.layers).Nodup) (n : Name) :
+    anyLayerHas f n = false ↔ ¬ Exists f n := by
+  rw [← anyLayerHas_iff hn]; simp
 
 theorem exists_split {f : Font} {L : String} {l : Layer} (hget : AL.get? f.layers L = some l) (n : Name) :
     Exists f n ↔ ExistsElsewhere f L n ∨ n ∈ l.glyphs := by
@@ -470,6 +566,10 @@ theorem exists_split {f : Font} {L : String} {l : Layer} (hget : AL.get? f.layer
 theorem get?_setLayer (f : Font) (L : String) (l' : Layer) (k : String) :
     AL.get? (setLayer f L l').layers k = if L = k then some l' else AL.get? f.layers k := by
   unfold setLayer; simp only; exact AL.get?_set _ _ _ _
+
+theorem existsElsewhere_congr {f f' : Font} (h : f'.layers = f.layers) (L : String) (n : Name) :
+    ExistsElsewhere f' L n ↔ ExistsElsewhere f L n := by
+  unfold ExistsElsewhere; rw [h]
 
 theorem existsElsewhere_setLayer (f : Font) (L : String) (l' : Layer) (n : Name) :
     ExistsElsewhere (setLayer f L l') L n ↔ ExistsElsewhere f L n := by
@@ -487,6 +587,12 @@ theorem exists_setLayer (f : Font) (L : String) (l' : Layer) (n : Name) :
   have hget : AL.get? (setLayer f L l').layers L = some l' := by rw [get?_setLayer, if_pos rfl]
   rw [exists_split hget, existsElsewhere_setLayer]
 
+/-- replacing a layer by one with the same glyph names changes nobody's existence -/
+theorem exists_setLayer_same {f : Font} {L : String} {l l' : Layer}
+    (hget : AL.get? f.layers L = some l) (hg : l'.glyphs = l.glyphs) (n : Name) :
+    Exists (setLayer f L l') n ↔ Exists f n := by
+  rw [exists_setLayer, exists_split hget, hg]
+
 theorem wf_setLayer {f : Font} (hw : WF f) (L : String) (l' : Layer) (ho : l'.observed = true) :
     WF (setLayer f L l') := by
   refine ⟨AL.nodup_keys_set _ _ _ hw.names, ?_⟩
@@ -499,74 +605,810 @@ theorem observed_of_get? {f : Font} (hw : WF f) {L : String} {l : Layer}
     (hget : AL.get? f.layers L = some l) : l.observed = true :=
   hw.observed (L, l) (AL.mem_of_get? hget)
 
-/-! ## What each operation does to the layers and to the order (observed layers) -/
+theorem exists_of_elsewhere {f : Font} {L : String} {n : Name} (h : ExistsElsewhere f L n) : Exists f n := by
+  obtain ⟨L2, l2, _, h2, hm⟩ := h
+  exact ⟨L2, l2, h2, hm⟩
 
-theorem newGlyph_spec {f : Font} (hw : WF f) {L : String} {l : Layer}
-    (hget : AL.get? f.layers L = some l) (g : Name) :
-    (newGlyph f L g).2 = .ok ∧
-    (newGlyph f L g).1.layers = (setLayer f L { l with glyphs := addName l.glyphs g }).layers ∧
-    glyphOrder (newGlyph f L g).1 = specCreate (glyphOrder f) g := by
-  have ho := observed_of_get? hw hget
-  obtain ⟨gl, ob⟩ := l
-  simp only at ho
-  subst ho
+/-! ## Posting -/
+
+/-- the three things `postNotification` can do with a layer's notification -/
+theorem post_cases (f : Font) (L : String) (note : Note) :
+    post f L note = f ∨
+    (∃ l, AL.get? f.layers L = some l ∧ l.disabled = 0 ∧ l.held ≠ 0 ∧
+      post f L note = setLayer f L { l with queue := enqueue l.queue note }) ∨
+    (∃ l, AL.get? f.layers L = some l ∧ l.disabled = 0 ∧ l.held = 0 ∧ l.observed = true ∧
+      post f L note = deliver f note) := by
+  unfold post
+  cases hget : AL.get? f.layers L with
+  | none => exact Or.inl rfl
+  | some l =>
+    simp only
+    by_cases hd : l.disabled = 0
+    · by_cases hh : l.held = 0
+      · by_cases ho : l.observed = true
+        · exact Or.inr (Or.inr ⟨l, rfl, hd, hh, ho, by simp [hd, hh, ho]⟩)
+        · exact Or.inl (by simp [hd, hh, ho])
+      · exact Or.inr (Or.inl ⟨l, rfl, hd, hh, by simp [hd, hh]⟩)
+    · exact Or.inl (by simp [hd])
+
+/-- nothing held, nothing disabled, layer observed: the callback runs at once -/
+theorem post_calm {f : Font} {L : String} {l : Layer} (hget : AL.get? f.layers L = some l)
+    (hh : l.held = 0) (hd : l.disabled = 0) (ho : l.observed = true) (note : Note) :
+    post f L note = deliver f note := by
+  unfold post; rw [hget]; simp [hh, hd, ho]
+
+/-- held (and not disabled): the notification is queued, unless an equal one is queued already -/
+theorem post_held {f : Font} {L : String} {l : Layer} (hget : AL.get? f.layers L = some l)
+    (hh : l.held ≠ 0) (hd : l.disabled = 0) (note : Note) :
+    post f L note = setLayer f L { l with queue := enqueue l.queue note } := by
+  unfold post; rw [hget]; simp [hh, hd]
+
+/-- disabled: the notification is dropped -/
+theorem post_disabled {f : Font} {L : String} {l : Layer} (hget : AL.get? f.layers L = some l)
+    (hd : l.disabled ≠ 0) (note : Note) : post f L note = f := by
+  unfold post; rw [hget]; simp [hd]
+
+theorem exists_post (f : Font) (L : String) (note : Note) (n : Name) :
+    Exists (post f L note) n ↔ Exists f n := by
+  rcases post_cases f L note with e | ⟨l, hget, _, _, e⟩ | ⟨l, _, _, _, _, e⟩
+  · rw [e]
+  · rw [e]; exact exists_setLayer_same (l' := { l with queue := enqueue l.queue note }) hget rfl n
+  · rw [e]; exact exists_congr (layers_deliver f note) n
+
+theorem wf_post {f : Font} (hw : WF f) (L : String) (note : Note) : WF (post f L note) := by
+  rcases post_cases f L note with e | ⟨l, hget, _, _, e⟩ | ⟨l, _, _, _, _, e⟩
+  · rw [e]; exact hw
+  · rw [e]; exact wf_setLayer hw _ _ (observed_of_get? (l := l) hw hget)
+  · rw [e]; exact WF.congr (layers_deliver f note) hw
+
+theorem libNormal_post {f : Font} (hl : LibNormal f) (L : String) (note : Note) :
+    LibNormal (post f L note) := by
+  rcases post_cases f L note with e | ⟨l, _, _, _, e⟩ | ⟨l, _, _, _, _, e⟩
+  · rw [e]; exact hl
+  · rw [e]; exact hl
+  · rw [e]; exact libNormal_deliver f note hl
+
+/-- the glyph names of every layer after a post are what they were -/
+theorem glyphs_post (f : Font) (L : String) (note : Note) (K : String) :
+    (AL.get? (post f L note).layers K).map (·.glyphs) = (AL.get? f.layers K).map (·.glyphs) := by
+  rcases post_cases f L note with e | ⟨l, hget, _, _, e⟩ | ⟨l, _, _, _, _, e⟩
+  · rw [e]
+  · rw [e, get?_setLayer]
+    by_cases h : L = K
+    · subst h; simp [hget]
+    · simp [h]
+  · rw [e, layers_deliver]
+
+theorem default_post (f : Font) (L : String) (note : Note) : (post f L note).default = f.default := by
+  rcases post_cases f L note with e | ⟨l, _, _, _, e⟩ | ⟨l, _, _, _, _, e⟩
+  · rw [e]
+  · rw [e]; rfl
+  · rw [e]; simp
+
+theorem ghost_post (f : Font) (L : String) (note : Note) : (post f L note).ghost = f.ghost := by
+  rcases post_cases f L note with e | ⟨l, _, _, _, e⟩ | ⟨l, _, _, _, _, e⟩
+  · rw [e]
+  · rw [e]; rfl
+  · rw [e]; simp
+
+theorem keys_setLayer_of_get? {f : Font} {L : String} {l : Layer} (hget : AL.get? f.layers L = some l)
+    (l' : Layer) : AL.keys (setLayer f L l').layers = AL.keys f.layers := by
+  unfold setLayer
+  simp only
+  rw [AL.keys_set, if_pos (AL.mem_keys_of_get? hget)]
+
+theorem keys_post (f : Font) (L : String) (note : Note) :
+    AL.keys (post f L note).layers = AL.keys f.layers := by
+  rcases post_cases f L note with e | ⟨l, hget, _, _, e⟩ | ⟨l, _, _, _, _, e⟩
+  · rw [e]
+  · rw [e]; exact keys_setLayer_of_get? hget _
+  · rw [e, layers_deliver]
+
+/-! ## Sequences of updates on a set of names -/
+
+/-- `o'` comes from `o` by a sequence of `updateGlyphOrder` calls whose arguments are names in `T` -/
+inductive Upd (T : Name → Prop) : List Name → List Name → Prop
+  | refl (o : List Name) : Upd T o o
+  | step {o o1 : List Name} (a r : Option Name) : Upd T o o1 →
+      (∀ x, a = some x → T x) → (∀ x, r = some x → T x) → Upd T o (specUpdate o1 a r)
+
+theorem Upd.mono {T T' : Name → Prop} (h : ∀ x, T x → T' x) {o o' : List Name} (u : Upd T o o') :
+    Upd T' o o' := by
+  induction u with
+  | refl => exact .refl _
+  | step a r _ ha hr ih => exact .step a r ih (fun x e => h x (ha x e)) (fun x e => h x (hr x e))
+
+theorem Upd.trans {T : Name → Prop} {o o1 o2 : List Name} (u1 : Upd T o o1) (u2 : Upd T o1 o2) :
+    Upd T o o2 := by
+  induction u2 with
+  | refl => exact u1
+  | step a r _ ha hr ih => exact .step a r ih ha hr
+
+theorem Upd.one {T : Name → Prop} (o : List Name) (a r : Option Name)
+    (ha : ∀ x, a = some x → T x) (hr : ∀ x, r = some x → T x) : Upd T o (specUpdate o a r) :=
+  .step a r (.refl o) ha hr
+
+theorem Upd.count_le {T : Name → Prop} {o o' : List Name} (u : Upd T o o') (n : Name) :
+    o'.count n ≤ max 1 (o.count n) := by
+  induction u with
+  | refl => omega
+  | step a r _ _ _ ih =>
+    refine Nat.le_trans (count_specUpdate_le _ a r n) ?_
+    omega
+
+theorem Upd.filter {T : Name → Prop} {o o' : List Name} (u : Upd T o o') (p : Name → Bool)
+    (hp : ∀ x, T x → p x = false) : o'.filter p = o.filter p := by
+  induction u with
+  | refl => rfl
+  | step a r _ ha hr ih =>
+    rw [filter_specUpdate p _ a r (fun x e => hp x (ha x e)) (fun x e => hp x (hr x e))]
+    exact ih
+
+theorem upd_deliver (f : Font) (note : Note) :
+    Upd (fun x => x ∈ note.names) (glyphOrder f) (glyphOrder (deliver f note)) := by
+  rw [glyphOrder_deliver]
+  exact Upd.one _ _ _ (deliverArgs_names _ note).1 (deliverArgs_names _ note).2
+
+theorem upd_post (f : Font) (L : String) (note : Note) :
+    Upd (fun x => x ∈ note.names) (glyphOrder f) (glyphOrder (post f L note)) := by
+  rcases post_cases f L note with e | ⟨l, _, _, _, e⟩ | ⟨l, _, _, _, _, e⟩
+  · rw [e]; exact .refl _
+  · rw [e]; exact .refl _
+  · rw [e]; exact upd_deliver f note
+
+theorem upd_flush (f : Font) (L : String) (q : List Note) :
+    Upd (fun x => ∃ nt ∈ q, x ∈ nt.names) (glyphOrder f) (glyphOrder (flush f L q)) := by
+  induction q generalizing f with
+  | nil => exact .refl _
+  | cons nt q ih =>
+    simp only [flush]
+    refine Upd.trans ((upd_post f L nt).mono ?_) ((ih (post f L nt)).mono ?_)
+    · intro x hx; exact ⟨nt, by simp, hx⟩
+    · rintro x ⟨n2, h2, hx⟩; exact ⟨n2, List.mem_cons_of_mem _ h2, hx⟩
+
+/-! ## Flushing a queue -/
+
+theorem exists_flush (f : Font) (L : String) (q : List Note) (n : Name) :
+    Exists (flush f L q) n ↔ Exists f n := by
+  induction q generalizing f with
+  | nil => rfl
+  | cons nt q ih => simp only [flush]; rw [ih, exists_post]
+
+theorem wf_flush {f : Font} (hw : WF f) (L : String) (q : List Note) : WF (flush f L q) := by
+  induction q generalizing f with
+  | nil => exact hw
+  | cons nt q ih => simp only [flush]; exact ih (wf_post hw L nt)
+
+theorem libNormal_flush {f : Font} (hl : LibNormal f) (L : String) (q : List Note) :
+    LibNormal (flush f L q) := by
+  induction q generalizing f with
+  | nil => exact hl
+  | cons nt q ih => simp only [flush]; exact ih (libNormal_post hl L nt)
+
+theorem glyphs_flush (f : Font) (L : String) (q : List Note) (K : String) :
+    (AL.get? (flush f L q).layers K).map (·.glyphs) = (AL.get? f.layers K).map (·.glyphs) := by
+  induction q generalizing f with
+  | nil => rfl
+  | cons nt q ih => simp only [flush]; rw [ih, glyphs_post]
+
+theorem default_flush (f : Font) (L : String) (q : List Note) : (flush f L q).default = f.default := by
+  induction q generalizing f with
+  | nil => rfl
+  | cons nt q ih => simp only [flush]; rw [ih, default_post]
+
+theorem ghost_flush (f : Font) (L : String) (q : List Note) : (flush f L q).ghost = f.ghost := by
+  induction q generalizing f with
+  | nil => rfl
+  | cons nt q ih => simp only [flush]; rw [ih, ghost_post]
+
+theorem keys_flush (f : Font) (L : String) (q : List Note) :
+    AL.keys (flush f L q).layers = AL.keys f.layers := by
+  induction q generalizing f with
+  | nil => rfl
+  | cons nt q ih => simp only [flush]; rw [ih, keys_post]
+
+/-- flushing through a layer on which nothing is held or disabled: every notification is delivered;
+the layers are untouched, so every callback sees the same layers -/
+theorem flush_calm {f : Font} {L : String} {l : Layer} (hget : AL.get? f.layers L = some l)
+    (hh : l.held = 0) (hd : l.disabled = 0) (ho : l.observed = true) (q : List Note) :
+    (flush f L q).layers = f.layers ∧
+    glyphOrder (flush f L q) = specDeliverAll (anyLayerHas f) (glyphOrder f) q := by
+  induction q generalizing f with
+  | nil => exact ⟨rfl, rfl⟩
+  | cons nt q ih =>
+    simp only [flush]
+    rw [post_calm hget hh hd ho]
+    have hget' : AL.get? (deliver f nt).layers L = some l := by rw [layers_deliver]; exact hget
+    obtain ⟨h1, h2⟩ := ih hget'
+    refine ⟨by rw [h1, layers_deliver], ?_⟩
+    rw [h2, glyphOrder_deliver, anyLayerHas_congr (layers_deliver f nt)]
+    rfl
+
+/-- flushing through a disabled layer delivers nothing -/
+theorem flush_disabled {f : Font} {L : String} {l : Layer} (hget : AL.get? f.layers L = some l)
+    (hd : l.disabled ≠ 0) (q : List Note) : flush f L q = f := by
+  induction q with
+  | nil => rfl
+  | cons nt q ih => simp only [flush]; rw [post_disabled hget hd]; exact ih
+
+/-! ## Association-list facts used by the layer-set operations -/
+
+theorem set_set (ls : List (String × Layer)) (k : String) (a b : Layer) :
+    AL.set (AL.set ls k a) k b = AL.set ls k b := by
+  induction ls with
+  | nil => simp [AL.set]
+  | cons p r ih =>
+    obtain ⟨k', v⟩ := p
+    by_cases h : k' = k
+    · simp [AL.set, h]
+    · simp [AL.set, h, ih]
+
+theorem setLayer_setLayer (f : Font) (L : String) (a b : Layer) :
+    setLayer (setLayer f L a) L b = setLayer f L b := by
+  unfold setLayer; simp only [set_set]
+
+theorem mem_renameKey {ls : List (String × Layer)} {old new : String} {kl : String × Layer}
+    (h : kl ∈ renameKey ls old new) : ∃ k', (k', kl.2) ∈ ls ∧ (kl.1 = k' ∨ (k' = old ∧ kl.1 = new)) := by
+  induction ls with
+  | nil => simp [renameKey] at h
+  | cons p r ih =>
+    obtain ⟨k, v⟩ := p
+    by_cases hk : k = old
+    · simp only [renameKey, hk, if_true, List.mem_cons] at h
+      rcases h with h | h
+      · subst h; exact ⟨old, by simp [hk], Or.inr ⟨rfl, rfl⟩⟩
+      · exact ⟨kl.1, List.mem_cons_of_mem _ h, Or.inl rfl⟩
+    · simp only [renameKey, hk, if_false, List.mem_cons] at h
+      rcases h with h | h
+      · subst h; exact ⟨k, by simp, Or.inl rfl⟩
+      · obtain ⟨k', h1, h2⟩ := ih h
+        exact ⟨k', List.mem_cons_of_mem _ h1, h2⟩
+
+theorem mem_keys_renameKey {ls : List (String × Layer)} {old new x : String}
+    (h : x ∈ AL.keys (renameKey ls old new)) : x = new ∨ x ∈ AL.keys ls := by
+  simp only [AL.keys, List.mem_map] at h ⊢
+  obtain ⟨kl, hkl, rfl⟩ := h
+  obtain ⟨k', h1, h2 | ⟨_, h2⟩⟩ := mem_renameKey hkl
+  · exact Or.inr ⟨(k', kl.2), h1, h2.symm⟩
+  · exact Or.inl h2
+
+theorem nodup_keys_renameKey {ls : List (String × Layer)} (old new : String)
+    (hn : (AL.keys ls).Nodup) (hnew : new ∉ AL.keys ls) : (AL.keys (renameKey ls old new)).Nodup := by
+  induction ls with
+  | nil => simp [renameKey, AL.keys]
+  | cons p r ih =>
+    obtain ⟨k, v⟩ := p
+    simp only [AL.keys, List.map_cons, List.nodup_cons, List.mem_cons, not_or] at hn hnew
+    by_cases hk : k = old
+    · simp only [renameKey, hk, if_true, AL.keys, List.map_cons, List.nodup_cons]
+      exact ⟨hnew.2, hn.2⟩
+    · simp only [renameKey, hk, if_false, AL.keys, List.map_cons, List.nodup_cons]
+      refine ⟨?_, ih hn.2 hnew.2⟩
+      intro hmem
+      rcases mem_keys_renameKey hmem with e | e
+      · exact hnew.1 e.symm
+      · exact hn.1 e
+
+/-- looking a key up after `old` has been renamed to the fresh key `new` -/
+theorem get?_renameKey {ls : List (String × Layer)} (old new : String)
+    (hn : (AL.keys ls).Nodup) (hnew : new ∉ AL.keys ls) (k : String) :
+    AL.get? (renameKey ls old new) k =
+      if k = new then AL.get? ls old else if k = old then none else AL.get? ls k := by
+  induction ls with
+  | nil => simp [renameKey]
+  | cons p r ih =>
+    obtain ⟨k', v⟩ := p
+    simp only [AL.keys, List.map_cons, List.mem_cons, not_or, List.nodup_cons] at hnew hn
+    have ih' := ih hn.2 hnew.2
+    by_cases hk : k' = old
+    · subst hk
+      simp only [renameKey, if_true, AL.get?_cons]
+      by_cases e1 : k = new
+      · subst e1; simp
+      · have e1' : ¬ new = k := fun e => e1 e.symm
+        simp only [e1, e1', if_false]
+        by_cases e2 : k = k'
+        · subst e2
+          simp only [if_true]
+          exact AL.get?_eq_none_of_not_mem hn.1
+        · have e2' : ¬ k' = k := fun e => e2 e.symm
+          simp [e2, e2']
+    · simp only [renameKey, hk, if_false, AL.get?_cons]
+      rw [ih']
+      by_cases e1 : k = new
+      · subst e1
+        have : ¬ k' = k := fun e => hnew.1 e.symm
+        simp [this]
+      · by_cases e2 : k = old
+        · subst e2
+          have : ¬ k' = k := hk
+          simp [e1, this]
+        · by_cases e3 : k' = k <;> simp [e1, e2, e3]
+
+theorem get?_reorder (ls : List (String × Layer)) (names : List String) (k : String) :
+    AL.get? (reorder ls names) k = if k ∈ names then AL.get? ls k else none := by
+  induction names with
+  | nil => simp [reorder]
+  | cons n ns ih =>
+    unfold reorder at ih ⊢
+    simp only [List.filterMap_cons]
+    cases hg : AL.get? ls n with
+    | none =>
+      simp only [Option.map_none]
+      rw [ih]
+      by_cases e : k = n
+      · subst e; simp [hg]
+      · simp [e]
+    | some l =>
+      simp only [Option.map_some, AL.get?_cons]
+      by_cases e : n = k
+      · subst e; simp [hg]
+      · have e' : ¬ k = n := fun x => e x.symm
+        simp only [e, if_false, List.mem_cons, e', false_or]
+        exact ih
+
+theorem mem_reorder {ls : List (String × Layer)} {names : List String} {kl : String × Layer}
+    (h : kl ∈ reorder ls names) : kl ∈ ls := by
+  unfold reorder at h
+  simp only [List.mem_filterMap] at h
+  obtain ⟨n, _, hn⟩ := h
+  cases hg : AL.get? ls n with
+  | none => simp [hg] at hn
+  | some l =>
+    simp [hg] at hn
+    subst hn
+    exact AL.mem_of_get? hg
+
+theorem get?_of_mem_keys {ls : List (String × Layer)} {k : String} (h : k ∈ AL.keys ls) :
+    ∃ l, AL.get? ls k = some l := by
+  induction ls with
+  | nil => simp [AL.keys] at h
+  | cons p r ih =>
+    obtain ⟨k2, v2⟩ := p
+    by_cases e : k2 = k
+    · exact ⟨v2, by simp [e]⟩
+    · simp only [AL.keys, List.map_cons, List.mem_cons] at h
+      rcases h with h | h
+      · exact absurd h.symm e
+      · obtain ⟨l, hl⟩ := ih h
+        exact ⟨l, by simp [e, hl]⟩
+
+theorem keys_reorder {ls : List (String × Layer)} {names : List String}
+    (h : ∀ n ∈ names, n ∈ AL.keys ls) : AL.keys (reorder ls names) = names := by
+  induction names with
+  | nil => simp [reorder, AL.keys]
+  | cons n ns ih =>
+    have hn : n ∈ AL.keys ls := h n (by simp)
+    have : ∃ l, AL.get? ls n = some l := get?_of_mem_keys hn
+    obtain ⟨l, hl⟩ := this
+    have ih' := ih (fun m hm => h m (List.mem_cons_of_mem _ hm))
+    unfold reorder at ih' ⊢
+    simp only [List.filterMap_cons, hl, Option.map_some, AL.keys, List.map_cons] at ih' ⊢
+    rw [ih']
+
+/-- `len(order) == len(old)` and `set(order) == set(old)` with `old` duplicate-free: `order` is
+duplicate-free as well (pigeonhole) -/
+theorem nodup_of_same_set {ks names : List String} (hk : ks.Nodup) (hlen : names.length = ks.length)
+    (h2 : ∀ k ∈ ks, k ∈ names) : names.Nodup := by
+  have sp : List.Subperm ks names := List.subperm_of_subset hk (fun x hx => h2 x hx)
+  have pm : List.Perm ks names := sp.perm_of_length_le (by omega)
+  exact pm.nodup_iff.mp hk
+
+/-! ## What every operation preserves -/
+
+theorem mem_queuedNames {f : Font} {x : Name} :
+    x ∈ queuedNames f ↔ ∃ kl ∈ f.layers, ∃ nt ∈ kl.2.queue, x ∈ nt.names := by
+  simp [queuedNames, List.mem_flatMap]
+
+theorem mem_enqueue {q : List Note} {n x : Note} : x ∈ enqueue q n ↔ x ∈ q ∨ x = n := by
+  unfold enqueue
+  by_cases h : n ∈ q
+  · simp [h]; intro e; subst e; exact h
+  · simp [h]
+
+/-- going from `f` to `f'`: well-formedness and lib normality are kept, the order changes by updates
+on names in `T` only, and no name outside `T` gets into a queue -/
+structure Safe (T : Name → Prop) (f f' : Font) : Prop where
+  wf : WF f → WF f'
+  libNormal : LibNormal f → LibNormal f'
+  upd : Upd T (glyphOrder f) (glyphOrder f')
+  queued : ∀ x, x ∈ queuedNames f' → x ∈ queuedNames f ∨ T x
+
+theorem Safe.refl (T : Name → Prop) (f : Font) : Safe T f f :=
+  ⟨id, id, .refl _, fun _ h => Or.inl h⟩
+
+theorem Safe.trans {T : Name → Prop} {f f1 f2 : Font} (s1 : Safe T f f1) (s2 : Safe T f1 f2) :
+    Safe T f f2 :=
+  ⟨fun h => s2.wf (s1.wf h), fun h => s2.libNormal (s1.libNormal h), s1.upd.trans s2.upd,
+   fun x h => by
+    rcases s2.queued x h with h | h
+    · exact s1.queued x h
+    · exact Or.inr h⟩
+
+theorem Safe.mono {T T' : Name → Prop} (hT : ∀ x, T x → T' x) {f f' : Font} (s : Safe T f f') :
+    Safe T' f f' :=
+  ⟨s.wf, s.libNormal, s.upd.mono hT, fun x h => (s.queued x h).imp id (hT x)⟩
+
+/-- a change that leaves the layers and the lib alone -/
+theorem safe_of_same (T : Name → Prop) {f f' : Font} (hl : f'.layers = f.layers) (hb : f'.lib = f.lib) :
+    Safe T f f' := by
+  refine ⟨WF.congr hl, ?_, ?_, ?_⟩
+  · intro h; unfold LibNormal at h ⊢; rw [hb]; exact h
+  · have : glyphOrder f' = glyphOrder f := by unfold glyphOrder; rw [hb]
+    rw [this]; exact .refl _
+  · intro x h
+    rw [mem_queuedNames, hl] at h
+    exact Or.inl (mem_queuedNames.mpr h)
+
+/-- replacing a layer by one that is observed like it and queues nothing new -/
+theorem safe_setLayer (T : Name → Prop) {f : Font} {L : String} {l : Layer}
+    (hget : AL.get? f.layers L = some l) (l' : Layer) (ho : l'.observed = l.observed)
+    (hq : ∀ nt ∈ l'.queue, nt ∈ l.queue ∨ ∀ x ∈ nt.names, T x) : Safe T f (setLayer f L l') := by
+  refine ⟨fun hw => wf_setLayer hw L l' (by rw [ho]; exact observed_of_get? hw hget), id, .refl _, ?_⟩
+  intro x h
+  rw [mem_queuedNames] at h
+  obtain ⟨kl, hkl, nt, hnt, hx⟩ := h
+  rcases AL.mem_set hkl with e | e
+  · subst e
+    rcases hq nt hnt with h1 | h1
+    · exact Or.inl (mem_queuedNames.mpr ⟨(L, l), AL.mem_of_get? hget, nt, h1, hx⟩)
+    · exact Or.inr (h1 x hx)
+  · exact Or.inl (mem_queuedNames.mpr ⟨kl, e, nt, hnt, hx⟩)
+
+/-- a brand-new layer (nothing queued, observed) -/
+theorem safe_newLayer (T : Name → Prop) (f : Font) (L : String) :
+    Safe T f (setLayer f L { glyphs := [], observed := true }) := by
+  refine ⟨fun hw => wf_setLayer hw L _ rfl, id, .refl _, ?_⟩
+  intro x h
+  rw [mem_queuedNames] at h
+  obtain ⟨kl, hkl, nt, hnt, hx⟩ := h
+  rcases AL.mem_set hkl with e | e
+  · subst e; simp at hnt
+  · exact Or.inl (mem_queuedNames.mpr ⟨kl, e, nt, hnt, hx⟩)
+
+theorem safe_post {T : Name → Prop} (f : Font) (L : String) (note : Note)
+    (hT : ∀ x ∈ note.names, T x) : Safe T f (post f L note) := by
+  refine ⟨fun hw => wf_post hw L note, fun hl => libNormal_post hl L note,
+    (upd_post f L note).mono hT, ?_⟩
+  rcases post_cases f L note with e | ⟨l, hget, _, _, e⟩ | ⟨l, _, _, _, _, e⟩
+  · rw [e]; exact fun _ h => Or.inl h
+  · rw [e]
+    refine (safe_setLayer T hget { l with queue := enqueue l.queue note } rfl ?_).queued
+    intro nt hnt
+    rcases mem_enqueue.mp hnt with h | h
+    · exact Or.inl h
+    · subst h; exact Or.inr hT
+  · rw [e]
+    intro x h
+    rw [mem_queuedNames, layers_deliver] at h
+    exact Or.inl (mem_queuedNames.mpr h)
+
+theorem safe_flush {T : Name → Prop} (f : Font) (L : String) (q : List Note)
+    (hT : ∀ nt ∈ q, ∀ x ∈ nt.names, T x) : Safe T f (flush f L q) := by
+  induction q generalizing f with
+  | nil => exact Safe.refl T f
+  | cons nt q ih =>
+    simp only [flush]
+    exact (safe_post f L nt (hT nt (by simp))).trans
+      (ih (post f L nt) (fun n2 h2 => hT n2 (List.mem_cons_of_mem _ h2)))
+
+/-- layers taken out of / renamed in / reordered in the layer set: every remaining layer is one of
+the old ones -/
+theorem safe_of_sublayers (T : Name → Prop) {f f' : Font} (hb : f'.lib = f.lib)
+    (hn : (AL.keys f.layers).Nodup → (AL.keys f'.layers).Nodup)
+    (hm : ∀ kl ∈ f'.layers, ∃ k', (k', kl.2) ∈ f.layers) : Safe T f f' := by
+  refine ⟨?_, ?_, ?_, ?_⟩
+  · intro hw
+    refine ⟨hn hw.names, ?_⟩
+    intro kl hkl
+    obtain ⟨k', h⟩ := hm kl hkl
+    exact hw.observed (k', kl.2) h
+  · intro h; unfold LibNormal at h ⊢; rw [hb]; exact h
+  · have : glyphOrder f' = glyphOrder f := by unfold glyphOrder; rw [hb]
+    rw [this]; exact .refl _
+  · intro x h
+    rw [mem_queuedNames] at h
+    obtain ⟨kl, hkl, nt, hnt, hx⟩ := h
+    obtain ⟨k', h'⟩ := hm kl hkl
+    exact Or.inl (mem_queuedNames.mpr ⟨(k', kl.2), h', nt, hnt, hx⟩)
+
+theorem safe_holdLayer (T : Name → Prop) (f : Font) (L : String) : Safe T f (holdLayer f L).1 := by
+  unfold holdLayer
+  cases hget : AL.get? f.layers L with
+  | none => exact Safe.refl T f
+  | some l => exact safe_setLayer T hget { l with held := l.held + 1 } rfl (fun nt h => Or.inl h)
+
+theorem safe_disableLayer (T : Name → Prop) (f : Font) (L : String) : Safe T f (disableLayer f L).1 := by
+  unfold disableLayer
+  cases hget : AL.get? f.layers L with
+  | none => exact Safe.refl T f
+  | some l => exact safe_setLayer T hget { l with disabled := l.disabled + 1 } rfl (fun nt h => Or.inl h)
+
+theorem safe_enableLayer (T : Name → Prop) (f : Font) (L : String) : Safe T f (enableLayer f L).1 := by
+  unfold enableLayer
+  cases hget : AL.get? f.layers L with
+  | none => exact Safe.refl T f
+  | some l =>
+    simp only
+    split
+    · exact Safe.refl T f
+    · exact safe_setLayer T hget { l with disabled := l.disabled - 1 } rfl (fun nt h => Or.inl h)
+
+theorem safe_releaseLayer {T : Name → Prop} (f : Font) (L : String)
+    (hT : ∀ x ∈ queuedNames f, T x) : Safe T f (releaseLayer f L).1 := by
+  unfold releaseLayer
+  cases hget : AL.get? f.layers L with
+  | none => exact Safe.refl T f
+  | some l =>
+    simp only
+    split
+    · exact Safe.refl T f
+    · split
+      · refine (safe_setLayer T hget { l with held := 0, queue := [] } rfl (by simp)).trans
+          (safe_flush _ L l.queue ?_)
+        intro nt hnt x hx
+        exact hT x (mem_queuedNames.mpr ⟨(L, l), AL.mem_of_get? hget, nt, hnt, hx⟩)
+      · exact safe_setLayer T hget { l with held := l.held - 1 } rfl (fun nt h => Or.inl h)
+
+theorem safe_newGlyph {T : Name → Prop} (f : Font) (L : String) (g : Name) (hT : T g) :
+    Safe T f (newGlyph f L g).1 := by
   unfold newGlyph
-  rw [hget]
-  simp only [if_true, glyphAddedCb, layers_updateGlyphOrder, glyphOrder_updateGlyphOrder]
-  exact ⟨trivial, trivial, rfl⟩
+  cases hget : AL.get? f.layers L with
+  | none => exact Safe.refl T f
+  | some l =>
+    exact (safe_setLayer T hget { l with glyphs := addName l.glyphs g } rfl (fun nt h => Or.inl h)).trans
+      (safe_post _ L (.added g) (by simpa [Note.names] using hT))
 
-theorem delGlyph_spec {f : Font} (hw : WF f) {L : String} {l : Layer}
-    (hget : AL.get? f.layers L = some l) {g : Name} (hm : g ∈ l.glyphs) :
-    (delGlyph f L g).2 = .ok ∧
-    (delGlyph f L g).1.layers = (setLayer f L { l with glyphs := removeName l.glyphs g }).layers ∧
-    ∃ b : Bool, (b = true ↔ ExistsElsewhere f L g) ∧
-      glyphOrder (delGlyph f L g).1 = specDelete (glyphOrder f) g b := by
-  have ho := observed_of_get? hw hget
-  obtain ⟨gl, ob⟩ := l
-  simp only at ho hm
-  subst ho
-  have hw1 := wf_setLayer hw L { glyphs := removeName gl g, observed := true } rfl
+theorem safe_delGlyph {T : Name → Prop} (f : Font) (L : String) (g : Name) (hT : T g) :
+    Safe T f (delGlyph f L g).1 := by
   unfold delGlyph
-  rw [hget]
-  simp only [hm, if_true]
-  refine ⟨trivial, ?_, anyLayerHas (setLayer f L { glyphs := removeName gl g, observed := true }) g, ?_, ?_⟩
-  · unfold glyphDeletedCb; split <;> simp
-  · rw [anyLayerHas_iff hw1.names, exists_setLayer]
-    simp [mem_removeName]
-  · unfold glyphDeletedCb specDelete
+  cases hget : AL.get? f.layers L with
+  | none => exact Safe.refl T f
+  | some l =>
+    simp only
     split
-    · rfl
-    · rw [glyphOrder_updateGlyphOrder]; rfl
+    · exact (safe_setLayer T hget { l with glyphs := removeName l.glyphs g } rfl (fun nt h => Or.inl h)).trans
+        (safe_post _ L (.deleted g) (by simpa [Note.names] using hT))
+    · exact Safe.refl T f
 
-theorem rename_spec {f : Font} (hw : WF f) {L : String} {l : Layer}
-    (hget : AL.get? f.layers L = some l) {old new : Name} (hm : old ∈ l.glyphs) (hne : old ≠ new) :
-    (rename f L old new).2 = .ok ∧
-    (rename f L old new).1.layers =
-      (setLayer f L { l with glyphs := addName (removeName l.glyphs old) new }).layers ∧
-    ∃ b : Bool, (b = true ↔ ExistsElsewhere f L old) ∧
-      glyphOrder (rename f L old new).1 = specRename (glyphOrder f) old new b := by
-  have ho := observed_of_get? hw hget
-  obtain ⟨gl, ob⟩ := l
-  simp only at ho hm
-  subst ho
-  have hw1 := wf_setLayer hw L { glyphs := addName (removeName gl old) new, observed := true } rfl
+theorem safe_rename {T : Name → Prop} (f : Font) (L : String) (old new : Name) (h1 : T old) (h2 : T new) :
+    Safe T f (rename f L old new).1 := by
   unfold rename
-  rw [hget]
-  simp only [hm, hne, if_true, if_false]
-  refine ⟨trivial, ?_,
-    anyLayerHas (setLayer f L { glyphs := addName (removeName gl old) new, observed := true }) old, ?_, ?_⟩
-  · unfold glyphRenamedCb; simp
-  · rw [anyLayerHas_iff hw1.names, exists_setLayer]
-    simp [mem_addName, mem_removeName, hne]
-  · unfold glyphRenamedCb
-    rw [glyphOrder_updateGlyphOrder]
-    have hg : glyphOrder (setLayer f L { glyphs := addName (removeName gl old) new, observed := true }) =
-        glyphOrder f := rfl
-    rw [hg]
-    unfold specRename
+  cases hget : AL.get? f.layers L with
+  | none => exact Safe.refl T f
+  | some l =>
+    simp only
     split
-    · rfl
-    · simp only [specUpdate, hne, if_false]
+    · split
+      · exact Safe.refl T f
+      · exact (safe_setLayer T hget { l with glyphs := addName (removeName l.glyphs old) new } rfl
+          (fun nt h => Or.inl h)).trans
+          (safe_post _ L (.renamed old new) (by
+            intro x hx
+            simp only [Note.names, List.mem_cons, List.not_mem_nil, or_false] at hx
+            rcases hx with e | e <;> subst e <;> assumption))
+    · exact Safe.refl T f
+
+theorem safe_insertGlyph {T : Name → Prop} (f : Font) (L : String) (g : Name) (hT : T g)
+    (hq : ∀ x ∈ queuedNames f, T x) : Safe T f (insertGlyph f L g).1 := by
+  unfold insertGlyph
+  cases hget : AL.get? f.layers L with
+  | none => exact Safe.refl T f
+  | some l =>
+    simp only
+    have s1 := safe_holdLayer T f L
+    have s2 := safe_newGlyph (T := T) (holdLayer f L).1 L g hT
+    have s12 := s1.trans s2
+    refine s12.trans (safe_releaseLayer _ L ?_)
+    intro x hx
+    rcases s12.queued x hx with h | h
+    · exact hq x h
+    · exact h
+
+theorem safe_newLayer' (T : Name → Prop) (f : Font) (name : String) : Safe T f (newLayer f name).1 := by
+  unfold newLayer
+  split
+  · exact Safe.refl T f
+  · exact safe_newLayer T f name
+
+theorem safe_delLayer (T : Name → Prop) (f : Font) (name : String) : Safe T f (delLayer f name).1 := by
+  unfold delLayer
+  cases hget : AL.get? f.layers name with
+  | none => exact Safe.refl T f
+  | some l =>
+    simp only
+    split
+    · exact safe_of_sublayers T rfl (AL.nodup_keys_erase _ _) (fun kl h => ⟨kl.1, AL.mem_erase h⟩)
+    · exact safe_of_sublayers T rfl (AL.nodup_keys_erase _ _) (fun kl h => ⟨kl.1, AL.mem_erase h⟩)
+
+theorem not_mem_keys_of_contains_false {ls : List (String × Layer)} {k : String}
+    (h : ¬ AL.contains ls k = true) : k ∉ AL.keys ls := by
+  intro hm
+  obtain ⟨l, hl⟩ := get?_of_mem_keys hm
+  exact h (by simp [AL.contains, hl])
+
+theorem safe_renameLayer (T : Name → Prop) (f : Font) (old new : String) :
+    Safe T f (renameLayer f old new).1 := by
+  unfold renameLayer
+  cases hget : AL.get? f.layers old with
+  | none => exact Safe.refl T f
+  | some l =>
+    simp only
+    split
+    · exact Safe.refl T f
+    · split
+      · exact Safe.refl T f
+      · rename_i hc
+        split
+        · exact Safe.refl T f
+        · refine safe_of_sublayers T rfl
+            (fun hn => nodup_keys_renameKey old new hn (not_mem_keys_of_contains_false hc)) ?_
+          intro kl h
+          obtain ⟨k', h1, _⟩ := mem_renameKey h
+          exact ⟨k', h1⟩
+
+theorem safe_setLayerOrder (T : Name → Prop) (f : Font) (names : List String) :
+    Safe T f (setLayerOrder f names).1 := by
+  unfold setLayerOrder
+  split
+  · exact Safe.refl T f
+  · split
+    · rename_i hc
+      refine safe_of_sublayers T rfl ?_ (fun kl h => ⟨kl.1, mem_reorder h⟩)
+      intro hn
+      simp only
+      rw [keys_reorder hc.2.1]
+      exact nodup_of_same_set hn hc.1 hc.2.2
+    · exact Safe.refl T f
+
+theorem safe_setDefault (T : Name → Prop) (f : Font) (name : String) : Safe T f (setDefault f name).1 := by
+  unfold setDefault
+  split
+  · exact safe_of_same T rfl rfl
+  · exact Safe.refl T f
+
+theorem safe_fontNewGlyph {T : Name → Prop} (f : Font) (g : Name) (hT : T g) :
+    Safe T f (fontNewGlyph f g).1 := by
+  unfold fontNewGlyph
+  cases f.default with
+  | none => exact safe_of_same T rfl rfl
+  | some L => exact safe_newGlyph f L g hT
+
+theorem safe_fontInsertGlyph {T : Name → Prop} (f : Font) (g : Name) (hT : T g)
+    (hq : ∀ x ∈ queuedNames f, T x) : Safe T f (fontInsertGlyph f g).1 := by
+  unfold fontInsertGlyph
+  cases f.default with
+  | none => exact safe_of_same T rfl rfl
+  | some L => exact safe_insertGlyph f L g hT hq
+
+theorem safe_fontDelGlyph {T : Name → Prop} (f : Font) (g : Name) (hT : T g) :
+    Safe T f (fontDelGlyph f g).1 := by
+  unfold fontDelGlyph
+  cases f.default with
+  | none =>
+    simp only
+    split
+    · exact safe_of_same T rfl rfl
+    · exact Safe.refl T f
+  | some L => exact safe_delGlyph f L g hT
+
+/-- every operation through which the font updates the order itself: see `Safe`, with `T` = the names
+the operation speaks about and the names of the notifications held at that moment -/
+theorem safe_step (f : Font) (op : Op) (h : op.isUpdate = true) :
+    Safe (fun x => x ∈ op.touched ∨ x ∈ queuedNames f) f (step f op).1 := by
+  cases op with
+  | setOrder v => simp [Op.isUpdate] at h
+  | setLib v => simp [Op.isUpdate] at h
+  | newGlyph L g => exact safe_newGlyph f L g (Or.inl (by simp [Op.touched]))
+  | insertGlyph L g => exact safe_insertGlyph f L g (Or.inl (by simp [Op.touched])) (fun x hx => Or.inr hx)
+  | delGlyph L g => exact safe_delGlyph f L g (Or.inl (by simp [Op.touched]))
+  | rename L o n =>
+    exact safe_rename f L o n (Or.inl (by simp [Op.touched])) (Or.inl (by simp [Op.touched]))
+  | newLayer n => exact safe_newLayer' _ f n
+  | delLayer n => exact safe_delLayer _ f n
+  | renameLayer o n => exact safe_renameLayer _ f o n
+  | setLayerOrder ns => exact safe_setLayerOrder _ f ns
+  | setDefault n => exact safe_setDefault _ f n
+  | fontNewGlyph g => exact safe_fontNewGlyph f g (Or.inl (by simp [Op.touched]))
+  | fontInsertGlyph g =>
+    exact safe_fontInsertGlyph f g (Or.inl (by simp [Op.touched])) (fun x hx => Or.inr hx)
+  | fontDelGlyph g => exact safe_fontDelGlyph f g (Or.inl (by simp [Op.touched]))
+  | holdLayer L => exact safe_holdLayer _ f L
+  | releaseLayer L => exact safe_releaseLayer f L (fun x hx => Or.inr hx)
+  | disableLayer L => exact safe_disableLayer _ f L
+  | enableLayer L => exact safe_enableLayer _ f L
+  | holdFont => exact safe_of_same _ rfl rfl
+  | releaseFont =>
+    simp only [step, releaseFont]
+    split
+    · exact Safe.refl _ f
+    · exact safe_of_same _ rfl rfl
+
+/-! ## Invariants of every operation -/
+
+theorem wf_step {f : Font} (hw : WF f) (op : Op) : WF (step f op).1 := by
+  by_cases h : op.isUpdate = true
+  · exact (safe_step f op h).wf hw
+  · cases op with
+    | setOrder v => exact WF.congr (by simp [step]) hw
+    | setLib v =>
+      simp only [step, setLib]
+      split
+      · exact WF.congr (f := f) rfl hw
+      · split
+        · exact WF.congr (f := f) rfl hw
+        · exact hw
+    | _ => simp [Op.isUpdate] at h
+
+theorem libNormal_step {f : Font} (hl : LibNormal f) (op : Op) (hop : op ≠ .setLib (some [])) :
+    LibNormal (step f op).1 := by
+  by_cases h : op.isUpdate = true
+  · exact (safe_step f op h).libNormal hl
+  · cases op with
+    | setOrder v =>
+      simp only [step]
+      unfold LibNormal at hl ⊢
+      rw [lib_setGlyphOrder]
+      split
+      · rename_i e; rw [← e]; exact hl
+      · split
+        · simp
+        · rename_i h1 h2
+          intro e; rw [e] at h2; simp at h2
+    | setLib v =>
+      simp only [step, setLib]
+      split
+      · rename_i x
+        unfold LibNormal; simp only
+        intro e
+        apply hop
+        simp at e
+        rw [e]
+      · split
+        · unfold LibNormal; simp
+        · exact hl
+    | _ => simp [Op.isUpdate] at h
+
+/-! ## Runs -/
+
+theorem run_append (f : Font) (ops1 ops2 : List Op) : run f (ops1 ++ ops2) = run (run f ops1) ops2 := by
+  induction ops1 generalizing f with
+  | nil => rfl
+  | cons op r ih => simp [run, ih]
+
+/-- an invariant of single steps (for a class of operations) is an invariant of runs -/
+theorem run_preserves (P : Font → Prop) (ok : Op → Prop)
+    (hstep : ∀ f op, ok op → P f → P (step f op).1) (f : Font) (ops : List Op)
+    (hops : ∀ op ∈ ops, ok op) (h : P f) : P (run f ops) := by
+  induction ops generalizing f with
+  | nil => exact h
+  | cons op r ih =>
+    simp only [run]
+    exact ih _ (fun o ho => hops o (List.mem_cons_of_mem _ ho))
+      (hstep f op (hops op (List.mem_cons_self ..)) h)
+
+theorem wf_run {f : Font} (hw : WF f) (ops : List Op) : WF (run f ops) :=
+  run_preserves WF (fun _ => True) (fun _ op _ h => wf_step h op) f ops (fun _ _ => trivial) hw
+
+/-- over a whole history of font-made updates: the order changes by updates on names the operations
+speak about or that were held at the start, and nothing else gets queued -/
+theorem safe_run (T : Name → Prop) (f : Font) (ops : List Op) (hops : ∀ op ∈ ops, op.isUpdate = true)
+    (hT : ∀ op ∈ ops, ∀ x ∈ op.touched, T x) (hq : ∀ x ∈ queuedNames f, T x) :
+    Safe T f (run f ops) := by
+  induction ops generalizing f with
+  | nil => exact Safe.refl T f
+  | cons op r ih =>
+    simp only [run]
+    have s1 : Safe T f (step f op).1 := (safe_step f op (hops op (List.mem_cons_self ..))).mono (by
+      rintro x (h | h)
+      · exact hT op (List.mem_cons_self ..) x h
+      · exact hq x h)
+    refine s1.trans (ih _ (fun o ho => hops o (List.mem_cons_of_mem _ ho))
+      (fun o ho => hT o (List.mem_cons_of_mem _ ho)) ?_)
+    intro x hx
+    rcases s1.queued x hx with h | h
+    · exact hq x h
+    · exact h
 
 /-! ## More facts about the index-free edits -/
 
@@ -625,208 +1467,273 @@ theorem specDelete_eq_specUpdate (o : List Name) (g : Name) (b : Bool) :
     specDelete o g b = specUpdate o none (if b then none else some g) := by
   cases b <;> simp [specDelete, specUpdate]
 
-/-! ## Every operation, any state: the order changes by one `specUpdate` on touched names -/
+/-! ## What each glyph operation does when nothing is held or disabled on its layer -/
 
-theorem exists_of_elsewhere {f : Font} {L : String} {n : Name} (h : ExistsElsewhere f L n) : Exists f n := by
-  obtain ⟨L2, l2, _, h2, hm⟩ := h
-  exact ⟨L2, l2, h2, hm⟩
+theorem newGlyph_spec {f : Font} (hw : WF f) {L : String} {l : Layer}
+    (hget : AL.get? f.layers L = some l) (hh : l.held = 0) (hd : l.disabled = 0) (g : Name) :
+    (newGlyph f L g).2 = .ok ∧
+    (newGlyph f L g).1.layers = (setLayer f L { l with glyphs := addName l.glyphs g }).layers ∧
+    glyphOrder (newGlyph f L g).1 = specCreate (glyphOrder f) g := by
+  have ho := observed_of_get? hw hget
+  have hget1 : AL.get? (setLayer f L { l with glyphs := addName l.glyphs g }).layers L =
+      some { l with glyphs := addName l.glyphs g } := by rw [get?_setLayer, if_pos rfl]
+  unfold newGlyph
+  rw [hget]
+  simp only
+  rw [post_calm hget1 hh hd ho]
+  refine ⟨trivial, layers_deliver _ _, ?_⟩
+  rw [glyphOrder_deliver]; rfl
 
-theorem step_order_spec (f : Font) (op : Op) (h : op.isUpdate = true) :
-    ∃ a r : Option Name, (∀ x, a = some x → x ∈ op.touched) ∧ (∀ x, r = some x → x ∈ op.touched) ∧
-      glyphOrder (step f op).1 = specUpdate (glyphOrder f) a r := by
-  have triv : ∃ a r : Option Name, (∀ x, a = some x → x ∈ op.touched) ∧
-      (∀ x, r = some x → x ∈ op.touched) ∧ glyphOrder f = specUpdate (glyphOrder f) a r :=
-    ⟨none, none, by simp, by simp, rfl⟩
+theorem delGlyph_spec {f : Font} (hw : WF f) {L : String} {l : Layer}
+    (hget : AL.get? f.layers L = some l) (hh : l.held = 0) (hd : l.disabled = 0)
+    {g : Name} (hm : g ∈ l.glyphs) :
+    (delGlyph f L g).2 = .ok ∧
+    (delGlyph f L g).1.layers = (setLayer f L { l with glyphs := removeName l.glyphs g }).layers ∧
+    ∃ b : Bool, (b = true ↔ ExistsElsewhere f L g) ∧
+      glyphOrder (delGlyph f L g).1 = specDelete (glyphOrder f) g b := by
+  have ho := observed_of_get? hw hget
+  have hget1 : AL.get? (setLayer f L { l with glyphs := removeName l.glyphs g }).layers L =
+      some { l with glyphs := removeName l.glyphs g } := by rw [get?_setLayer, if_pos rfl]
+  have hw1 := wf_setLayer hw L { l with glyphs := removeName l.glyphs g } ho
+  unfold delGlyph
+  rw [hget]
+  simp only [hm, if_true]
+  rw [post_calm hget1 hh hd ho]
+  refine ⟨trivial, layers_deliver _ _,
+    anyLayerHas (setLayer f L { l with glyphs := removeName l.glyphs g }) g, ?_, ?_⟩
+  · rw [anyLayerHas_iff hw1.names, exists_setLayer]
+    simp [mem_removeName]
+  · rw [glyphOrder_deliver]
+    have hg : glyphOrder (setLayer f L { l with glyphs := removeName l.glyphs g }) = glyphOrder f := rfl
+    rw [hg]
+    simp only [specDeliver, deliverArgs]
+    generalize anyLayerHas (setLayer f L { l with glyphs := removeName l.glyphs g }) g = b
+    cases b <;> simp [specDelete, specUpdate]
+
+theorem rename_spec {f : Font} (hw : WF f) {L : String} {l : Layer}
+    (hget : AL.get? f.layers L = some l) (hh : l.held = 0) (hd : l.disabled = 0)
+    {old new : Name} (hm : old ∈ l.glyphs) (hne : old ≠ new) :
+    (rename f L old new).2 = .ok ∧
+    (rename f L old new).1.layers =
+      (setLayer f L { l with glyphs := addName (removeName l.glyphs old) new }).layers ∧
+    ∃ b : Bool, (b = true ↔ ExistsElsewhere f L old) ∧
+      glyphOrder (rename f L old new).1 = specRename (glyphOrder f) old new b := by
+  have ho := observed_of_get? hw hget
+  have hget1 : AL.get? (setLayer f L { l with glyphs := addName (removeName l.glyphs old) new }).layers L =
+      some { l with glyphs := addName (removeName l.glyphs old) new } := by rw [get?_setLayer, if_pos rfl]
+  have hw1 := wf_setLayer hw L { l with glyphs := addName (removeName l.glyphs old) new } ho
+  unfold rename
+  rw [hget]
+  simp only [hm, hne, if_true, if_false]
+  rw [post_calm hget1 hh hd ho]
+  refine ⟨trivial, layers_deliver _ _,
+    anyLayerHas (setLayer f L { l with glyphs := addName (removeName l.glyphs old) new }) old, ?_, ?_⟩
+  · rw [anyLayerHas_iff hw1.names, exists_setLayer]
+    simp [mem_addName, mem_removeName, hne]
+  · rw [glyphOrder_deliver, specRename_eq_specUpdate _ hne]
+    rfl
+
+/-- nothing held, nothing disabled, nothing queued: `Layer.insertGlyph`'s own hold/release bracket
+delivers its one `Layer.GlyphAdded` at the release — the outcome is that of `newGlyph` -/
+theorem insertGlyph_calm {f : Font} {L : String} {l : Layer} (hget : AL.get? f.layers L = some l)
+    (hc : l.calm) (g : Name) : insertGlyph f L g = newGlyph f L g := by
+  obtain ⟨hh, hd, hq⟩ := hc
+  obtain ⟨gl, ob, he, qu, di⟩ := l
+  simp only at hh hd hq
+  subst hh; subst hd; subst hq
+  have e1 : (holdLayer f L).1 =
+      setLayer f L { glyphs := gl, observed := ob, held := 1, queue := [], disabled := 0 } := by
+    unfold holdLayer; rw [hget]
+  have e2 : (newGlyph (setLayer f L { glyphs := gl, observed := ob, held := 1, queue := [], disabled := 0 }) L g).1 =
+      setLayer f L { glyphs := addName gl g, observed := ob, held := 1, queue := [.added g], disabled := 0 } := by
+    unfold newGlyph
+    rw [get?_setLayer, if_pos rfl]
+    simp only
+    rw [setLayer_setLayer,
+      post_held (l := { glyphs := addName gl g, observed := ob, held := 1, queue := [], disabled := 0 })
+        (by rw [get?_setLayer, if_pos rfl]) (by simp) rfl,
+      setLayer_setLayer]
+    simp [enqueue]
+  have e3 : (releaseLayer (setLayer f L
+      { glyphs := addName gl g, observed := ob, held := 1, queue := [.added g], disabled := 0 }) L).1 =
+      post (setLayer f L { glyphs := addName gl g, observed := ob, held := 0, queue := [], disabled := 0 }) L
+        (.added g) := by
+    unfold releaseLayer
+    rw [get?_setLayer, if_pos rfl]
+    simp only [Nat.one_ne_zero, if_false, if_true]
+    rw [setLayer_setLayer]
+    rfl
+  unfold insertGlyph
+  rw [hget]
+  simp only
+  rw [e1, e2, e3]
+  unfold newGlyph
+  rw [hget]
+
+/-! ## Calm fonts stay calm under operations that do not hold or disable -/
+
+theorem calm_congr {f f' : Font} (h : f'.layers = f.layers) (hc : Calm f) : Calm f' := by
+  unfold Calm; rw [h]; exact hc
+
+theorem calm_setLayer {f : Font} (hc : Calm f) (L : String) (l' : Layer) (h : l'.calm) :
+    Calm (setLayer f L l') := by
+  intro kl hkl
+  rcases AL.mem_set hkl with e | e
+  · rw [e]; exact h
+  · exact hc kl e
+
+theorem calm_of_get? {f : Font} (hc : Calm f) {L : String} {l : Layer}
+    (hget : AL.get? f.layers L = some l) : l.calm := hc (L, l) (AL.mem_of_get? hget)
+
+theorem Undisturbed.of_get {f : Font} {L : String} {l : Layer} (h : Undisturbed f L)
+    (hget : AL.get? f.layers L = some l) : l.held = 0 ∧ l.disabled = 0 := by
+  unfold Undisturbed at h; rw [hget] at h; exact h
+
+theorem undisturbed_of_calm {f : Font} (hc : Calm f) (L : String) : Undisturbed f L := by
+  unfold Undisturbed
+  cases hget : AL.get? f.layers L with
+  | none => trivial
+  | some l => exact ⟨(calm_of_get? hc hget).1, (calm_of_get? hc hget).2.1⟩
+
+theorem calm_of_sublayers {f f' : Font} (hc : Calm f)
+    (hm : ∀ kl ∈ f'.layers, ∃ k', (k', kl.2) ∈ f.layers) : Calm f' := by
+  intro kl hkl
+  obtain ⟨k', h⟩ := hm kl hkl
+  exact hc (k', kl.2) h
+
+theorem calm_newGlyph {f : Font} (hw : WF f) (hc : Calm f) (L : String) (g : Name) :
+    Calm (newGlyph f L g).1 := by
+  cases hget : AL.get? f.layers L with
+  | none => simp only [newGlyph, hget]; exact hc
+  | some l =>
+    obtain ⟨hh, hd, hq⟩ := calm_of_get? hc hget
+    exact calm_congr (newGlyph_spec hw hget hh hd g).2.1 (calm_setLayer hc L _ ⟨hh, hd, hq⟩)
+
+theorem calm_insertGlyph {f : Font} (hw : WF f) (hc : Calm f) (L : String) (g : Name) :
+    Calm (insertGlyph f L g).1 := by
+  cases hget : AL.get? f.layers L with
+  | none => simp only [insertGlyph, hget]; exact hc
+  | some l => rw [insertGlyph_calm hget (calm_of_get? hc hget)]; exact calm_newGlyph hw hc L g
+
+theorem calm_delGlyph {f : Font} (hw : WF f) (hc : Calm f) (L : String) (g : Name) :
+    Calm (delGlyph f L g).1 := by
+  cases hget : AL.get? f.layers L with
+  | none => simp only [delGlyph, hget]; exact hc
+  | some l =>
+    obtain ⟨hh, hd, hq⟩ := calm_of_get? hc hget
+    by_cases hm : g ∈ l.glyphs
+    · exact calm_congr (delGlyph_spec hw hget hh hd hm).2.1 (calm_setLayer hc L _ ⟨hh, hd, hq⟩)
+    · simp only [delGlyph, hget, hm, if_false]; exact hc
+
+theorem calm_rename {f : Font} (hw : WF f) (hc : Calm f) (L : String) (old new : Name) :
+    Calm (rename f L old new).1 := by
+  cases hget : AL.get? f.layers L with
+  | none => simp only [rename, hget]; exact hc
+  | some l =>
+    obtain ⟨hh, hd, hq⟩ := calm_of_get? hc hget
+    by_cases hm : old ∈ l.glyphs
+    · by_cases hne : old = new
+      · subst hne; simp only [rename, hget, hm, if_true]; exact hc
+      · exact calm_congr (rename_spec hw hget hh hd hm hne).2.1 (calm_setLayer hc L _ ⟨hh, hd, hq⟩)
+    · simp only [rename, hget, hm, if_false]; exact hc
+
+theorem calm_step {f : Font} (hw : WF f) (hc : Calm f) (op : Op) (hs : op.isSuspend = false) :
+    Calm (step f op).1 := by
   cases op with
-  | setOrder v => simp [Op.isUpdate] at h
-  | setLib v => simp [Op.isUpdate] at h
-  | newLayer n =>
-    simp only [step, newLayer]
-    split
-    · exact triv
-    · exact triv
-  | delLayer n =>
-    simp only [step, delLayer]
-    split
-    · exact triv
-    · exact triv
-  | newGlyph L g =>
-    simp only [step, newGlyph]
-    split
-    · exact triv
-    · split
-      · exact ⟨some g, none, by simp [Op.touched], by simp, by
-          simp only [glyphAddedCb, glyphOrder_updateGlyphOrder]; rfl⟩
-      · exact triv
-  | insertGlyph L g =>
-    simp only [step, insertGlyph, newGlyph]
-    split
-    · exact triv
-    · split
-      · exact ⟨some g, none, by simp [Op.touched], by simp, by
-          simp only [glyphAddedCb, glyphOrder_updateGlyphOrder]; rfl⟩
-      · exact triv
-  | delGlyph L g =>
-    simp only [step, delGlyph]
-    split
-    · exact triv
-    · split
-      · split
-        · unfold glyphDeletedCb
-          split
-          · exact triv
-          · exact ⟨none, some g, by simp, by simp [Op.touched], by
-              simp only [glyphOrder_updateGlyphOrder]; rfl⟩
-        · exact triv
-      · exact triv
-  | rename L old new =>
-    simp only [step, rename]
-    split
-    · exact triv
-    · split
-      · split
-        · exact triv
-        · split
-          · unfold glyphRenamedCb
-            split
-            · exact ⟨some new, none, by simp [Op.touched], by simp, by
-                simp only [glyphOrder_updateGlyphOrder]; rfl⟩
-            · exact ⟨some new, some old, by simp [Op.touched], by simp [Op.touched], by
-                simp only [glyphOrder_updateGlyphOrder]; rfl⟩
-          · exact triv
-      · exact triv
-
-/-! ## Invariants of every operation -/
-
-theorem wf_step {f : Font} (hw : WF f) (op : Op) : WF (step f op).1 := by
-  cases op with
-  | setOrder v => exact WF.congr (by simp [step]) hw
+  | setOrder v => exact calm_congr (by simp [step]) hc
   | setLib v =>
     simp only [step, setLib]
     split
-    · exact WF.congr (f := f) rfl hw
+    · exact calm_congr (f := f) rfl hc
     · split
-      · exact WF.congr (f := f) rfl hw
-      · exact hw
+      · exact calm_congr (f := f) rfl hc
+      · exact hc
+  | newGlyph L g => exact calm_newGlyph hw hc L g
+  | insertGlyph L g => exact calm_insertGlyph hw hc L g
+  | delGlyph L g => exact calm_delGlyph hw hc L g
+  | rename L o n => exact calm_rename hw hc L o n
   | newLayer n =>
     simp only [step, newLayer]
     split
-    · exact hw
-    · exact wf_setLayer hw _ _ rfl
+    · exact hc
+    · exact calm_setLayer hc n _ ⟨rfl, rfl, rfl⟩
   | delLayer n =>
     simp only [step, delLayer]
-    split
-    · refine ⟨AL.nodup_keys_erase _ _ hw.names, ?_⟩
-      intro kl hkl
-      exact hw.observed kl (AL.mem_erase hkl)
-    · exact hw
-  | newGlyph L g =>
-    cases hget : AL.get? f.layers L with
-    | none => simp only [step, newGlyph, hget]; exact hw
+    cases hget : AL.get? f.layers n with
+    | none => exact hc
     | some l =>
-      have ho := observed_of_get? hw hget
-      exact WF.congr (newGlyph_spec hw hget g).2.1 (wf_setLayer hw _ _ ho)
-  | insertGlyph L g =>
-    cases hget : AL.get? f.layers L with
-    | none => simp only [step, insertGlyph, newGlyph, hget]; exact hw
+      simp only
+      split
+      · exact calm_of_sublayers hc (fun kl h => ⟨kl.1, AL.mem_erase h⟩)
+      · exact calm_of_sublayers hc (fun kl h => ⟨kl.1, AL.mem_erase h⟩)
+  | renameLayer o n =>
+    simp only [step, renameLayer]
+    cases hget : AL.get? f.layers o with
+    | none => exact hc
     | some l =>
-      have ho := observed_of_get? hw hget
-      exact WF.congr (newGlyph_spec hw hget g).2.1 (wf_setLayer hw _ _ ho)
-  | delGlyph L g =>
-    cases hget : AL.get? f.layers L with
-    | none => simp only [step, delGlyph, hget]; exact hw
-    | some l =>
-      have ho := observed_of_get? hw hget
-      by_cases hm : g ∈ l.glyphs
-      · exact WF.congr (delGlyph_spec hw hget hm).2.1 (wf_setLayer hw _ _ ho)
-      · simp only [step, delGlyph, hget, hm, if_false]; exact hw
-  | rename L old new =>
-    cases hget : AL.get? f.layers L with
-    | none => simp only [step, rename, hget]; exact hw
-    | some l =>
-      have ho := observed_of_get? hw hget
-      by_cases hm : old ∈ l.glyphs
-      · by_cases hne : old = new
-        · subst hne; simp only [step, rename, hget, hm, if_true]; exact hw
-        · exact WF.congr (rename_spec hw hget hm hne).2.1 (wf_setLayer hw _ _ ho)
-      · simp only [step, rename, hget, hm, if_false]; exact hw
-
-theorem libNormal_step {f : Font} (hl : LibNormal f) (op : Op) (hop : op ≠ .setLib (some [])) :
-    LibNormal (step f op).1 := by
-  have keep : ∀ f' : Font, f'.lib = f.lib → LibNormal f' := fun f' e => by
-    unfold LibNormal; rw [e]; exact hl
-  cases op with
-  | setOrder v =>
-    simp only [step]
-    unfold LibNormal at hl ⊢
-    rw [lib_setGlyphOrder]
-    split
-    · rename_i e; rw [← e]; exact hl
-    · split
-      · simp
-      · rename_i h1 h2
-        intro e; rw [e] at h2; simp at h2
-  | setLib v =>
-    simp only [step, setLib]
-    split
-    · rename_i x
-      unfold LibNormal; simp only
-      intro e
-      apply hop
-      simp at e
-      rw [e]
-    · split
-      · unfold LibNormal; simp
-      · exact hl
-  | newLayer n =>
-    simp only [step, newLayer]
-    split
-    · exact hl
-    · exact keep _ rfl
-  | delLayer n =>
-    simp only [step, delLayer]
-    split
-    · exact keep _ rfl
-    · exact hl
-  | newGlyph L g =>
-    simp only [step, newGlyph]
-    split
-    · exact hl
-    · split
-      · exact libNormal_updateGlyphOrder _ _ _ (keep _ rfl)
-      · exact keep _ rfl
-  | insertGlyph L g =>
-    simp only [step, insertGlyph, newGlyph]
-    split
-    · exact hl
-    · split
-      · exact libNormal_updateGlyphOrder _ _ _ (keep _ rfl)
-      · exact keep _ rfl
-  | delGlyph L g =>
-    simp only [step, delGlyph]
-    split
-    · exact hl
-    · split
+      simp only
+      split
+      · exact hc
       · split
-        · unfold glyphDeletedCb
-          split
-          · exact keep _ rfl
-          · exact libNormal_updateGlyphOrder _ _ _ (keep _ rfl)
-        · exact keep _ rfl
-      · exact hl
-  | rename L old new =>
-    simp only [step, rename]
-    split
-    · exact hl
-    · split
-      · split
-        · exact hl
+        · exact hc
         · split
-          · exact libNormal_updateGlyphOrder _ _ _ (keep _ rfl)
-          · exact keep _ rfl
-      · exact hl
+          · exact hc
+          · refine calm_of_sublayers hc ?_
+            intro kl h
+            obtain ⟨k', h1, _⟩ := mem_renameKey h
+            exact ⟨k', h1⟩
+  | setLayerOrder ns =>
+    simp only [step, setLayerOrder]
+    split
+    · exact hc
+    · split
+      · exact calm_of_sublayers hc (fun kl h => ⟨kl.1, mem_reorder h⟩)
+      · exact hc
+  | setDefault n =>
+    simp only [step, setDefault]
+    split
+    · exact calm_congr (f := f) rfl hc
+    · exact hc
+  | fontNewGlyph g =>
+    simp only [step, fontNewGlyph]
+    cases f.default with
+    | none => exact calm_congr (f := f) rfl hc
+    | some L => exact calm_newGlyph hw hc L g
+  | fontInsertGlyph g =>
+    simp only [step, fontInsertGlyph]
+    cases f.default with
+    | none => exact calm_congr (f := f) rfl hc
+    | some L => exact calm_insertGlyph hw hc L g
+  | fontDelGlyph g =>
+    simp only [step, fontDelGlyph]
+    cases f.default with
+    | none =>
+      simp only
+      split
+      · exact calm_congr (f := f) rfl hc
+      · exact hc
+    | some L => exact calm_delGlyph hw hc L g
+  | holdLayer L => simp [Op.isSuspend] at hs
+  | releaseLayer L => simp [Op.isSuspend] at hs
+  | disableLayer L => simp [Op.isSuspend] at hs
+  | enableLayer L => simp [Op.isSuspend] at hs
+  | holdFont => exact calm_congr (f := f) rfl hc
+  | releaseFont =>
+    simp only [step, releaseFont]
+    split
+    · exact hc
+    · exact calm_congr (f := f) rfl hc
 
-/-! ## Missing names never appear, stale names never appear -/
+theorem calm_run {f : Font} (hw : WF f) (hc : Calm f) (ops : List Op)
+    (hs : ∀ op ∈ ops, op.isSuspend = false) : Calm (run f ops) := by
+  induction ops generalizing f with
+  | nil => exact hc
+  | cons op r ih =>
+    simp only [run]
+    exact ih (wf_step hw op) (calm_step hw hc op (hs op (List.mem_cons_self ..)))
+      (fun o ho => hs o (List.mem_cons_of_mem _ ho))
+
+/-! ## Missing names never appear, stale names never appear (nothing held or disabled) -/
 
 theorem exists_newLayer {f : Font} {name : String} (hc : AL.contains f.layers name = false) (n : Name) :
     Exists (setLayer f name { glyphs := [], observed := true }) n ↔ Exists f n := by
@@ -844,244 +1751,381 @@ theorem exists_newLayer {f : Font} {name : String} (hc : AL.contains f.layers na
     refine Or.inl ⟨L2, l2, ?_, h2, hm⟩
     intro e; subst e; rw [hnone] at h2; cases h2
 
-theorem exists_of_exists_erase {f : Font} (hn : (AL.keys f.layers).Nodup) {name : String} {n : Name}
-    (h : Exists { f with layers := AL.erase f.layers name } n) : Exists f n := by
+theorem exists_of_exists_erase {f f' : Font} (hn : (AL.keys f.layers).Nodup) {name : String} {n : Name}
+    (hl : f'.layers = AL.erase f.layers name) (h : Exists f' n) : Exists f n := by
   obtain ⟨L2, l2, h2, hm⟩ := h
-  simp only at h2
+  rw [hl] at h2
   by_cases e : name = L2
   · subst e
     rw [AL.get?_erase_self_of_nodup _ _ hn] at h2; cases h2
   · rw [AL.get?_erase_ne _ _ _ e] at h2
     exact ⟨L2, l2, h2, hm⟩
 
-/-- No operation through which the font updates the order makes a name *missing*: a glyph name
-that exists afterwards and is not in the order existed before and was not in the order before. -/
-theorem missing_step {f : Font} (hw : WF f) (op : Op) (hu : op.isUpdate = true) (n : Name)
+theorem exists_of_exists_renameKey {f f' : Font} (hn : (AL.keys f.layers).Nodup) {old new : String}
+    (hnew : new ∉ AL.keys f.layers) {n : Name} (hl : f'.layers = renameKey f.layers old new)
+    (h : Exists f' n) : Exists f n := by
+  obtain ⟨L2, l2, h2, hm⟩ := h
+  rw [hl, get?_renameKey old new hn hnew] at h2
+  split at h2
+  · exact ⟨old, l2, h2, hm⟩
+  · split at h2
+    · cases h2
+    · exact ⟨L2, l2, h2, hm⟩
+
+theorem exists_of_exists_reorder {f f' : Font} {names : List String} {n : Name}
+    (hl : f'.layers = reorder f.layers names) (h : Exists f' n) : Exists f n := by
+  obtain ⟨L2, l2, h2, hm⟩ := h
+  rw [hl, get?_reorder] at h2
+  split at h2
+  · exact ⟨L2, l2, h2, hm⟩
+  · cases h2
+
+/-- an operation that leaves the order alone and creates no glyph -/
+theorem missing_of_sub {f f' : Font} {n : Name} (hex : Exists f' n → Exists f n)
+    (ho : glyphOrder f' = glyphOrder f) (h1 : Exists f' n) (h2 : n ∉ glyphOrder f') :
+    Exists f n ∧ n ∉ glyphOrder f := ⟨hex h1, by rw [← ho]; exact h2⟩
+
+theorem missing_newGlyph {f : Font} (hw : WF f) (hc : Calm f) (L : String) (g n : Name)
+    (hex : Exists (newGlyph f L g).1 n) (hno : n ∉ glyphOrder (newGlyph f L g).1) :
+    Exists f n ∧ n ∉ glyphOrder f := by
+  cases hget : AL.get? f.layers L with
+  | none => simp only [newGlyph, hget] at hex hno; exact ⟨hex, hno⟩
+  | some l =>
+    obtain ⟨hh, hd, _⟩ := calm_of_get? hc hget
+    obtain ⟨_, hl, ho⟩ := newGlyph_spec hw hget hh hd g
+    rw [ho] at hno
+    unfold specCreate at hno
+    rw [mem_appendIfAbsent, not_or] at hno
+    rw [exists_congr hl, exists_setLayer] at hex
+    refine ⟨?_, hno.1⟩
+    rcases hex with h | h
+    · exact exists_of_elsewhere h
+    · simp only [mem_addName] at h
+      rcases h with h | h
+      · exact ⟨L, l, hget, h⟩
+      · exact absurd h hno.2
+
+theorem missing_delGlyph {f : Font} (hw : WF f) (hc : Calm f) (L : String) (g n : Name)
+    (hex : Exists (delGlyph f L g).1 n) (hno : n ∉ glyphOrder (delGlyph f L g).1) :
+    Exists f n ∧ n ∉ glyphOrder f := by
+  cases hget : AL.get? f.layers L with
+  | none => simp only [delGlyph, hget] at hex hno; exact ⟨hex, hno⟩
+  | some l =>
+    obtain ⟨hh, hd, _⟩ := calm_of_get? hc hget
+    by_cases hm : g ∈ l.glyphs
+    · obtain ⟨_, hl, b, hb, ho⟩ := delGlyph_spec hw hget hh hd hm
+      rw [ho] at hno
+      rw [exists_congr hl, exists_setLayer] at hex
+      simp only [mem_removeName] at hex
+      have hexf : Exists f n := by
+        rcases hex with h | h
+        · exact exists_of_elsewhere h
+        · exact ⟨L, l, hget, h.1⟩
+      refine ⟨hexf, ?_⟩
+      unfold specDelete at hno
+      cases b with
+      | true => simpa using hno
+      | false =>
+        simp only [Bool.false_eq_true, if_false] at hno
+        have hne : n ≠ g := by
+          intro e; subst e
+          rcases hex with h | h
+          · exact absurd (hb.mpr h) (by simp)
+          · exact h.2 rfl
+        rwa [mem_eraseFirst_of_ne hne] at hno
+    · simp only [delGlyph, hget, hm, if_false] at hex hno; exact ⟨hex, hno⟩
+
+theorem missing_rename {f : Font} (hw : WF f) (hc : Calm f) (L : String) (old new n : Name)
+    (hex : Exists (rename f L old new).1 n) (hno : n ∉ glyphOrder (rename f L old new).1) :
+    Exists f n ∧ n ∉ glyphOrder f := by
+  cases hget : AL.get? f.layers L with
+  | none => simp only [rename, hget] at hex hno; exact ⟨hex, hno⟩
+  | some l =>
+    obtain ⟨hh, hd, _⟩ := calm_of_get? hc hget
+    by_cases hm : old ∈ l.glyphs
+    · by_cases hne : old = new
+      · subst hne; simp only [rename, hget, hm, if_true] at hex hno; exact ⟨hex, hno⟩
+      · obtain ⟨_, hl, b, hb, ho⟩ := rename_spec hw hget hh hd hm hne
+        rw [ho] at hno
+        rw [exists_congr hl, exists_setLayer] at hex
+        simp only [mem_addName, mem_removeName] at hex
+        have hn_new : n ≠ new := by
+          intro e; subst e; exact hno (mem_specRename_new _ hne b)
+        have hexf : Exists f n := by
+          rcases hex with h | h | h
+          · exact exists_of_elsewhere h
+          · exact ⟨L, l, hget, h.1⟩
+          · exact absurd h hn_new
+        refine ⟨hexf, ?_⟩
+        cases b with
+        | true =>
+          unfold specRename at hno
+          simp only [if_true] at hno
+          rw [mem_appendIfAbsent, not_or] at hno
+          exact hno.1
+        | false =>
+          have hn_old : n ≠ old := by
+            intro e; subst e
+            rcases hex with h | h | h
+            · exact absurd (hb.mpr h) (by simp)
+            · exact h.2 rfl
+            · exact hne h
+          rwa [mem_specRename_of_ne _ hn_old hn_new] at hno
+    · simp only [rename, hget, hm, if_false] at hex hno; exact ⟨hex, hno⟩
+
+/-- No operation through which the font updates the order makes a name *missing*, as long as no
+layer's notifications are held or disabled: a glyph name that exists afterwards and is not in the
+order existed before and was not in the order before. -/
+theorem missing_step {f : Font} (hw : WF f) (hc : Calm f) (op : Op) (hu : op.isUpdate = true)
+    (hs : op.isSuspend = false) (n : Name)
     (hex : Exists (step f op).1 n) (hno : n ∉ glyphOrder (step f op).1) :
     Exists f n ∧ n ∉ glyphOrder f := by
-  have create : ∀ (L : String) (g : Name), Exists (newGlyph f L g).1 n →
-      n ∉ glyphOrder (newGlyph f L g).1 → Exists f n ∧ n ∉ glyphOrder f := by
-    intro L g hex hno
-    cases hget : AL.get? f.layers L with
-    | none => simp only [newGlyph, hget] at hex hno; exact ⟨hex, hno⟩
-    | some l =>
-      obtain ⟨_, hl, ho⟩ := newGlyph_spec hw hget g
-      rw [ho] at hno
-      unfold specCreate at hno
-      rw [mem_appendIfAbsent, not_or] at hno
-      rw [exists_congr hl, exists_setLayer] at hex
-      refine ⟨?_, hno.1⟩
-      rcases hex with h | h
-      · exact exists_of_elsewhere h
-      · simp only [mem_addName] at h
-        rcases h with h | h
-        · exact ⟨L, l, hget, h⟩
-        · exact absurd h hno.2
   cases op with
   | setOrder v => simp [Op.isUpdate] at hu
   | setLib v => simp [Op.isUpdate] at hu
+  | holdLayer L => simp [Op.isSuspend] at hs
+  | releaseLayer L => simp [Op.isSuspend] at hs
+  | disableLayer L => simp [Op.isSuspend] at hs
+  | enableLayer L => simp [Op.isSuspend] at hs
+  | newGlyph L g => exact missing_newGlyph hw hc L g n hex hno
+  | insertGlyph L g =>
+    simp only [step] at hex hno
+    cases hget : AL.get? f.layers L with
+    | none => simp only [insertGlyph, hget] at hex hno; exact ⟨hex, hno⟩
+    | some l =>
+      rw [insertGlyph_calm hget (calm_of_get? hc hget)] at hex hno
+      exact missing_newGlyph hw hc L g n hex hno
+  | delGlyph L g => exact missing_delGlyph hw hc L g n hex hno
+  | rename L o nw => exact missing_rename hw hc L o nw n hex hno
   | newLayer name =>
     simp only [step, newLayer] at hex hno
     split at hex
     · simp only [*] at hno; exact ⟨hex, by simpa using hno⟩
-    · rename_i hc
-      simp only [hc] at hno
-      exact ⟨(exists_newLayer (by simpa using hc) n).mp hex, hno⟩
+    · rename_i hcn
+      simp only [hcn] at hno
+      exact ⟨(exists_newLayer (by simpa using hcn) n).mp hex, hno⟩
   | delLayer name =>
     simp only [step, delLayer] at hex hno
+    cases hget : AL.get? f.layers name with
+    | none => simp only [hget] at hex hno; exact ⟨hex, hno⟩
+    | some l =>
+      simp only [hget] at hex hno
+      split at hex
+      · rename_i hd
+        simp only [hd, if_true] at hno
+        exact ⟨exists_of_exists_erase hw.names rfl hex, hno⟩
+      · rename_i hd
+        simp only [hd, if_false] at hno
+        exact ⟨exists_of_exists_erase hw.names rfl hex, hno⟩
+  | renameLayer o nw =>
+    simp only [step, renameLayer] at hex hno
+    cases hget : AL.get? f.layers o with
+    | none => simp only [hget] at hex hno; exact ⟨hex, hno⟩
+    | some l =>
+      simp only [hget] at hex hno
+      by_cases h1 : o = nw
+      · simp only [h1, if_true] at hex hno; exact ⟨hex, hno⟩
+      · simp only [h1, if_false] at hex hno
+        by_cases h2 : AL.contains f.layers nw = true
+        · simp only [h2, if_true] at hex hno; exact ⟨hex, hno⟩
+        · simp only [h2] at hex hno
+          by_cases h3 : l.held ≠ 0 ∨ l.disabled ≠ 0
+          · simp only [h3, if_true] at hex hno; exact ⟨hex, hno⟩
+          · simp only [h3, if_false] at hex hno
+            exact ⟨exists_of_exists_renameKey hw.names (not_mem_keys_of_contains_false h2) rfl hex, hno⟩
+  | setLayerOrder ns =>
+    simp only [step, setLayerOrder] at hex hno
+    by_cases h1 : AL.keys f.layers = ns
+    · simp only [h1, if_true] at hex hno; exact ⟨hex, hno⟩
+    · rw [if_neg h1] at hex hno
+      by_cases h2 : ns.length = (AL.keys f.layers).length ∧ (∀ n ∈ ns, n ∈ AL.keys f.layers) ∧
+          (∀ k ∈ AL.keys f.layers, k ∈ ns)
+      · rw [if_pos h2] at hex hno
+        exact ⟨exists_of_exists_reorder rfl hex, hno⟩
+      · rw [if_neg h2] at hex hno
+        exact ⟨hex, hno⟩
+  | setDefault name =>
+    simp only [step, setDefault] at hex hno
     split at hex
-    · rename_i hc
-      simp only [hc] at hno
-      exact ⟨exists_of_exists_erase hw.names hex, hno⟩
-    · rename_i hc
-      simp only [hc] at hno
+    · rename_i h2
+      simp only [h2, if_true] at hno
       exact ⟨hex, hno⟩
-  | newGlyph L g => exact create L g hex hno
-  | insertGlyph L g => exact create L g hex hno
-  | delGlyph L g =>
-    simp only [step] at hex hno
-    cases hget : AL.get? f.layers L with
-    | none => simp only [delGlyph, hget] at hex hno; exact ⟨hex, hno⟩
-    | some l =>
-      by_cases hm : g ∈ l.glyphs
-      · obtain ⟨_, hl, b, hb, ho⟩ := delGlyph_spec hw hget hm
-        rw [ho] at hno
-        rw [exists_congr hl, exists_setLayer] at hex
-        simp only [mem_removeName] at hex
-        have hexf : Exists f n := by
-          rcases hex with h | h
-          · exact exists_of_elsewhere h
-          · exact ⟨L, l, hget, h.1⟩
-        refine ⟨hexf, ?_⟩
-        unfold specDelete at hno
-        cases b with
-        | true => simpa using hno
-        | false =>
-          simp only [Bool.false_eq_true, if_false] at hno
-          have hne : n ≠ g := by
-            intro e; subst e
-            rcases hex with h | h
-            · exact absurd (hb.mpr h) (by simp)
-            · exact h.2 rfl
-          rwa [mem_eraseFirst_of_ne hne] at hno
-      · simp only [delGlyph, hget, hm, if_false] at hex hno; exact ⟨hex, hno⟩
-  | rename L old new =>
-    simp only [step] at hex hno
-    cases hget : AL.get? f.layers L with
-    | none => simp only [rename, hget] at hex hno; exact ⟨hex, hno⟩
-    | some l =>
-      by_cases hm : old ∈ l.glyphs
-      · by_cases hne : old = new
-        · subst hne; simp only [rename, hget, hm, if_true] at hex hno; exact ⟨hex, hno⟩
-        · obtain ⟨_, hl, b, hb, ho⟩ := rename_spec hw hget hm hne
-          rw [ho] at hno
-          rw [exists_congr hl, exists_setLayer] at hex
-          simp only [mem_addName, mem_removeName] at hex
-          have hn_new : n ≠ new := by
-            intro e; subst e; exact hno (mem_specRename_new _ hne b)
-          have hexf : Exists f n := by
-            rcases hex with h | h | h
-            · exact exists_of_elsewhere h
-            · exact ⟨L, l, hget, h.1⟩
-            · exact absurd h hn_new
-          refine ⟨hexf, ?_⟩
-          cases b with
-          | true =>
-            unfold specRename at hno
-            simp only [if_true] at hno
-            rw [mem_appendIfAbsent, not_or] at hno
-            exact hno.1
-          | false =>
-            have hn_old : n ≠ old := by
-              intro e; subst e
-              rcases hex with h | h | h
-              · exact absurd (hb.mpr h) (by simp)
-              · exact h.2 rfl
-              · exact hne h
-            rwa [mem_specRename_of_ne _ hn_old hn_new] at hno
-      · simp only [rename, hget, hm, if_false] at hex hno; exact ⟨hex, hno⟩
+    · rename_i h2
+      simp only [h2] at hno
+      exact ⟨hex, hno⟩
+  | fontNewGlyph g =>
+    simp only [step, fontNewGlyph] at hex hno
+    cases hd : f.default with
+    | none => simp only [hd] at hex hno; exact ⟨hex, hno⟩
+    | some L => simp only [hd] at hex hno; exact missing_newGlyph hw hc L g n hex hno
+  | fontInsertGlyph g =>
+    simp only [step, fontInsertGlyph] at hex hno
+    cases hd : f.default with
+    | none => simp only [hd] at hex hno; exact ⟨hex, hno⟩
+    | some L =>
+      simp only [hd] at hex hno
+      cases hget : AL.get? f.layers L with
+      | none => simp only [insertGlyph, hget] at hex hno; exact ⟨hex, hno⟩
+      | some l =>
+        rw [insertGlyph_calm hget (calm_of_get? hc hget)] at hex hno
+        exact missing_newGlyph hw hc L g n hex hno
+  | fontDelGlyph g =>
+    simp only [step, fontDelGlyph] at hex hno
+    cases hd : f.default with
+    | none =>
+      simp only [hd] at hex hno
+      split at hex
+      · rename_i h2; simp only [h2, if_true] at hno; exact ⟨hex, hno⟩
+      · rename_i h2; simp only [h2, if_false] at hno; exact ⟨hex, hno⟩
+    | some L => simp only [hd] at hex hno; exact missing_delGlyph hw hc L g n hex hno
+  | holdFont => exact ⟨hex, hno⟩
+  | releaseFont =>
+    simp only [step, releaseFont] at hex hno
+    split at hex
+    · rename_i h2; simp only [h2, if_true] at hno; exact ⟨hex, hno⟩
+    · rename_i h2; simp only [h2, if_false] at hno; exact ⟨hex, hno⟩
 
-/-- No glyph-set operation makes a name *stale* when the order has no duplicates: a name that is
-in the order afterwards although no layer has such a glyph was already in that situation before. -/
-theorem stale_step {f : Font} (hw : WF f) (hnd : (glyphOrder f).Nodup) (op : Op)
-    (hg : op.isGlyphOp = true) (n : Name)
-    (hin : n ∈ glyphOrder (step f op).1) (hnex : ¬ Exists (step f op).1 n) :
+theorem stale_newGlyph {f : Font} (hw : WF f) (hc : Calm f) (L : String) (g n : Name)
+    (hin : n ∈ glyphOrder (newGlyph f L g).1) (hnex : ¬ Exists (newGlyph f L g).1 n) :
     n ∈ glyphOrder f ∧ ¬ Exists f n := by
-  have hcount : ∀ x, (glyphOrder f).count x ≤ 1 := List.nodup_iff_count.mp hnd
-  have create : ∀ (L : String) (g : Name), n ∈ glyphOrder (newGlyph f L g).1 →
-      ¬ Exists (newGlyph f L g).1 n → n ∈ glyphOrder f ∧ ¬ Exists f n := by
-    intro L g hin hnex
-    cases hget : AL.get? f.layers L with
-    | none => simp only [newGlyph, hget] at hin hnex; exact ⟨hin, hnex⟩
-    | some l =>
-      obtain ⟨_, hl, ho⟩ := newGlyph_spec hw hget g
+  cases hget : AL.get? f.layers L with
+  | none => simp only [newGlyph, hget] at hin hnex; exact ⟨hin, hnex⟩
+  | some l =>
+    obtain ⟨hh, hd, _⟩ := calm_of_get? hc hget
+    obtain ⟨_, hl, ho⟩ := newGlyph_spec hw hget hh hd g
+    rw [ho] at hin
+    unfold specCreate at hin
+    rw [mem_appendIfAbsent] at hin
+    rw [exists_congr hl, exists_setLayer] at hnex
+    simp only [mem_addName, not_or] at hnex
+    refine ⟨?_, ?_⟩
+    · rcases hin with h | h
+      · exact h
+      · exact absurd h hnex.2.2
+    · intro hex
+      rcases (exists_split hget n).mp hex with h | h
+      · exact hnex.1 h
+      · exact hnex.2.1 h
+
+theorem stale_delGlyph {f : Font} (hw : WF f) (hc : Calm f) (hcount : ∀ x, (glyphOrder f).count x ≤ 1)
+    (L : String) (g n : Name)
+    (hin : n ∈ glyphOrder (delGlyph f L g).1) (hnex : ¬ Exists (delGlyph f L g).1 n) :
+    n ∈ glyphOrder f ∧ ¬ Exists f n := by
+  cases hget : AL.get? f.layers L with
+  | none => simp only [delGlyph, hget] at hin hnex; exact ⟨hin, hnex⟩
+  | some l =>
+    obtain ⟨hh, hd, _⟩ := calm_of_get? hc hget
+    by_cases hm : g ∈ l.glyphs
+    · obtain ⟨_, hl, b, hb, ho⟩ := delGlyph_spec hw hget hh hd hm
       rw [ho] at hin
-      unfold specCreate at hin
-      rw [mem_appendIfAbsent] at hin
       rw [exists_congr hl, exists_setLayer] at hnex
-      simp only [mem_addName, not_or] at hnex
-      refine ⟨?_, ?_⟩
-      · rcases hin with h | h
-        · exact h
-        · exact absurd h hnex.2.2
-      · intro hex
+      simp only [mem_removeName, not_or, not_and, Decidable.not_not] at hnex
+      unfold specDelete at hin
+      cases b with
+      | true =>
+        simp only [if_true] at hin
+        refine ⟨hin, ?_⟩
+        intro hex
         rcases (exists_split hget n).mp hex with h | h
         · exact hnex.1 h
-        · exact hnex.2.1 h
-  cases op with
-  | setOrder v => simp [Op.isGlyphOp] at hg
-  | setLib v => simp [Op.isGlyphOp] at hg
-  | newLayer name => simp [Op.isGlyphOp] at hg
-  | delLayer name => simp [Op.isGlyphOp] at hg
-  | newGlyph L g => exact create L g hin hnex
-  | insertGlyph L g => exact create L g hin hnex
-  | delGlyph L g =>
-    simp only [step] at hin hnex
-    cases hget : AL.get? f.layers L with
-    | none => simp only [delGlyph, hget] at hin hnex; exact ⟨hin, hnex⟩
-    | some l =>
-      by_cases hm : g ∈ l.glyphs
-      · obtain ⟨_, hl, b, hb, ho⟩ := delGlyph_spec hw hget hm
+        · have e := hnex.2 h
+          subst e
+          exact hnex.1 (hb.mp rfl)
+      | false =>
+        simp only [Bool.false_eq_true, if_false] at hin
+        have hne : n ≠ g := by
+          intro e; subst e; exact not_mem_eraseFirst_self (hcount n) hin
+        refine ⟨mem_of_mem_eraseFirst hin, ?_⟩
+        intro hex
+        rcases (exists_split hget n).mp hex with h | h
+        · exact hnex.1 h
+        · exact hne (hnex.2 h)
+    · simp only [delGlyph, hget, hm, if_false] at hin hnex; exact ⟨hin, hnex⟩
+
+theorem stale_rename {f : Font} (hw : WF f) (hc : Calm f) (hcount : ∀ x, (glyphOrder f).count x ≤ 1)
+    (L : String) (old new n : Name)
+    (hin : n ∈ glyphOrder (rename f L old new).1) (hnex : ¬ Exists (rename f L old new).1 n) :
+    n ∈ glyphOrder f ∧ ¬ Exists f n := by
+  cases hget : AL.get? f.layers L with
+  | none => simp only [rename, hget] at hin hnex; exact ⟨hin, hnex⟩
+  | some l =>
+    obtain ⟨hh, hd, _⟩ := calm_of_get? hc hget
+    by_cases hm : old ∈ l.glyphs
+    · by_cases hne : old = new
+      · subst hne; simp only [rename, hget, hm, if_true] at hin hnex; exact ⟨hin, hnex⟩
+      · obtain ⟨_, hl, b, hb, ho⟩ := rename_spec hw hget hh hd hm hne
         rw [ho] at hin
         rw [exists_congr hl, exists_setLayer] at hnex
-        simp only [mem_removeName, not_or, not_and, Decidable.not_not] at hnex
-        unfold specDelete at hin
+        simp only [mem_addName, mem_removeName, not_or, not_and, Decidable.not_not] at hnex
+        have hn_new : n ≠ new := hnex.2.2
         cases b with
         | true =>
+          unfold specRename at hin
           simp only [if_true] at hin
+          rw [mem_appendIfAbsent] at hin
+          refine ⟨hin.resolve_right hn_new, ?_⟩
+          intro hex
+          rcases (exists_split hget n).mp hex with h | h
+          · exact hnex.1 h
+          · have e := hnex.2.1 h
+            subst e
+            exact hnex.1 (hb.mp rfl)
+        | false =>
+          have hn_old : n ≠ old := by
+            intro e; subst e; exact not_mem_specRename_old hne (hcount n) hin
+          rw [mem_specRename_of_ne _ hn_old hn_new] at hin
           refine ⟨hin, ?_⟩
           intro hex
           rcases (exists_split hget n).mp hex with h | h
           · exact hnex.1 h
-          · have e := hnex.2 h
-            subst e
-            exact hnex.1 (hb.mp rfl)
-        | false =>
-          simp only [Bool.false_eq_true, if_false] at hin
-          have hne : n ≠ g := by
-            intro e; subst e; exact not_mem_eraseFirst_self (hcount n) hin
-          refine ⟨mem_of_mem_eraseFirst hin, ?_⟩
-          intro hex
-          rcases (exists_split hget n).mp hex with h | h
-          · exact hnex.1 h
-          · exact hne (hnex.2 h)
-      · simp only [delGlyph, hget, hm, if_false] at hin hnex; exact ⟨hin, hnex⟩
-  | rename L old new =>
+          · exact hn_old (hnex.2.1 h)
+    · simp only [rename, hget, hm, if_false] at hin hnex; exact ⟨hin, hnex⟩
+
+/-- No glyph-set operation makes a name *stale* when the order has no duplicates and nothing is held
+or disabled: a name that is in the order afterwards although no layer has such a glyph was already
+in that situation before. -/
+theorem stale_step {f : Font} (hw : WF f) (hc : Calm f) (hnd : (glyphOrder f).Nodup) (op : Op)
+    (hg : op.isGlyphOp = true) (n : Name)
+    (hin : n ∈ glyphOrder (step f op).1) (hnex : ¬ Exists (step f op).1 n) :
+    n ∈ glyphOrder f ∧ ¬ Exists f n := by
+  have hcount : ∀ x, (glyphOrder f).count x ≤ 1 := List.nodup_iff_count.mp hnd
+  cases op with
+  | newGlyph L g => exact stale_newGlyph hw hc L g n hin hnex
+  | insertGlyph L g =>
     simp only [step] at hin hnex
     cases hget : AL.get? f.layers L with
-    | none => simp only [rename, hget] at hin hnex; exact ⟨hin, hnex⟩
+    | none => simp only [insertGlyph, hget] at hin hnex; exact ⟨hin, hnex⟩
     | some l =>
-      by_cases hm : old ∈ l.glyphs
-      · by_cases hne : old = new
-        · subst hne; simp only [rename, hget, hm, if_true] at hin hnex; exact ⟨hin, hnex⟩
-        · obtain ⟨_, hl, b, hb, ho⟩ := rename_spec hw hget hm hne
-          rw [ho] at hin
-          rw [exists_congr hl, exists_setLayer] at hnex
-          simp only [mem_addName, mem_removeName, not_or, not_and, Decidable.not_not] at hnex
-          have hn_new : n ≠ new := hnex.2.2
-          cases b with
-          | true =>
-            unfold specRename at hin
-            simp only [if_true] at hin
-            rw [mem_appendIfAbsent] at hin
-            refine ⟨hin.resolve_right hn_new, ?_⟩
-            intro hex
-            rcases (exists_split hget n).mp hex with h | h
-            · exact hnex.1 h
-            · have e := hnex.2.1 h
-              subst e
-              exact hnex.1 (hb.mp rfl)
-          | false =>
-            have hn_old : n ≠ old := by
-              intro e; subst e; exact not_mem_specRename_old hne (hcount n) hin
-            rw [mem_specRename_of_ne _ hn_old hn_new] at hin
-            refine ⟨hin, ?_⟩
-            intro hex
-            rcases (exists_split hget n).mp hex with h | h
-            · exact hnex.1 h
-            · exact hn_old (hnex.2.1 h)
-      · simp only [rename, hget, hm, if_false] at hin hnex; exact ⟨hin, hnex⟩
-
-/-! ## Runs -/
-
-theorem run_append (f : Font) (ops1 ops2 : List Op) : run f (ops1 ++ ops2) = run (run f ops1) ops2 := by
-  induction ops1 generalizing f with
-  | nil => rfl
-  | cons op r ih => simp [run, ih]
-
-/-- an invariant of single steps (for a class of operations) is an invariant of runs -/
-theorem run_preserves (P : Font → Prop) (ok : Op → Prop)
-    (hstep : ∀ f op, ok op → P f → P (step f op).1) (f : Font) (ops : List Op)
-    (hops : ∀ op ∈ ops, ok op) (h : P f) : P (run f ops) := by
-  induction ops generalizing f with
-  | nil => exact h
-  | cons op r ih =>
-    simp only [run]
-    exact ih _ (fun o ho => hops o (List.mem_cons_of_mem _ ho))
-      (hstep f op (hops op (List.mem_cons_self ..)) h)
-
-theorem wf_run {f : Font} (hw : WF f) (ops : List Op) : WF (run f ops) :=
-  run_preserves WF (fun _ => True) (fun _ op _ h => wf_step h op) f ops (fun _ _ => trivial) hw
+      rw [insertGlyph_calm hget (calm_of_get? hc hget)] at hin hnex
+      exact stale_newGlyph hw hc L g n hin hnex
+  | delGlyph L g => exact stale_delGlyph hw hc hcount L g n hin hnex
+  | rename L o nw => exact stale_rename hw hc hcount L o nw n hin hnex
+  | fontNewGlyph g =>
+    simp only [step, fontNewGlyph] at hin hnex
+    cases hd : f.default with
+    | none => simp only [hd] at hin hnex; exact ⟨hin, hnex⟩
+    | some L => simp only [hd] at hin hnex; exact stale_newGlyph hw hc L g n hin hnex
+  | fontInsertGlyph g =>
+    simp only [step, fontInsertGlyph] at hin hnex
+    cases hd : f.default with
+    | none => simp only [hd] at hin hnex; exact ⟨hin, hnex⟩
+    | some L =>
+      simp only [hd] at hin hnex
+      cases hget : AL.get? f.layers L with
+      | none => simp only [insertGlyph, hget] at hin hnex; exact ⟨hin, hnex⟩
+      | some l =>
+        rw [insertGlyph_calm hget (calm_of_get? hc hget)] at hin hnex
+        exact stale_newGlyph hw hc L g n hin hnex
+  | fontDelGlyph g =>
+    simp only [step, fontDelGlyph] at hin hnex
+    cases hd : f.default with
+    | none =>
+      simp only [hd] at hin hnex
+      split at hin
+      · rename_i h2; simp only [h2, if_true] at hnex; exact ⟨hin, hnex⟩
+      · rename_i h2; simp only [h2, if_false] at hnex; exact ⟨hin, hnex⟩
+    | some L => simp only [hd] at hin hnex; exact stale_delGlyph hw hc hcount L g n hin hnex
+  | _ => simp [Op.isGlyphOp] at hg
 
 end GlyphOrder
 end DefconModel
